@@ -2,6 +2,7 @@
     strings, per-type payload round-trips, the whole-dataset round-trip. *)
 From Ferrous Require Import Base.Bytes Model.Resp Model.Types Model.Strings Model.Rdb.
 From Ferrous Require Import Proofs.BytesFacts.
+From Ferrous Require Generated.
 Open Scope Z_scope.
 
 (** ---- the reader monad ---- *)
@@ -92,14 +93,15 @@ Proof.
 Qed.
 
 (** ---- strings ---- *)
+Definition rs_resv (v : Z) (s : bytes) : Z := Z.max (Z.max v (Z.min (len s) 65536)) (2 * len s + 32).
 Lemma read_string_write s r v :
   len s < two32 ->
-  read_string (mkrd (write_string s ++ r) v) = (Some s, mkrd r (Z.max v (len s))).
+  read_string (mkrd (write_string s ++ r) v) = (Some s, mkrd r (rs_resv v s)).
 Proof.
   intros H. pose proof (len_nonneg s). unfold read_string, write_string. rewrite <- app_assoc.
   rewrite (bind_ok _ _ _ (len s) (mkrd (s ++ r) v)) by (apply read_length_write; lia).
   unfold bind at 1. unfold reserve. cbn [r_in r_resv mkrd].
-  apply read_exact_app. reflexivity.
+  rewrite take_app. reflexivity.
 Qed.
 
 (** ------------------------------------------------------------------ *)
@@ -216,9 +218,9 @@ Proof.
   - rewrite read_strings_eq, len_pos_cons. destruct fuel as [|f]; [cbn [length] in Hf; lia|].
     inversion Hok as [|? ? Hx Hl]; subst.
     cbn [flat_map]. rewrite <- app_assoc.
-    rewrite (bind_ok _ _ _ x (mkrd (flat_map write_string l ++ r) (Z.max v (len x)))) by (apply read_string_write; exact Hx).
+    rewrite (bind_ok _ _ _ x (mkrd (flat_map write_string l ++ r) (rs_resv v x))) by (apply read_string_write; exact Hx).
     rewrite len_cons_pred.
-    destruct (IH f (x :: acc) r (Z.max v (len x))) as [v' E]; [cbn [length] in Hf; lia | exact Hl |].
+    destruct (IH f (x :: acc) r (rs_resv v x)) as [v' E]; [cbn [length] in Hf; lia | exact Hl |].
     exists v'. rewrite E. cbn [rev]. now rewrite <- app_assoc.
 Qed.
 
@@ -233,7 +235,7 @@ Proof.
     cbn [flat_map]. rewrite <- app_assoc.
     rewrite (read_string_write x _ v Hx).
     rewrite len_cons_pred.
-    destruct (IH f (x :: acc) r (Z.max v (len x))) as [v' E]; [cbn [length] in Hf; lia | exact Hl |].
+    destruct (IH f (x :: acc) r (rs_resv v x)) as [v' E]; [cbn [length] in Hf; lia | exact Hl |].
     exists v'. unfold mkrd in *. rewrite E. cbn [rev]. now rewrite <- app_assoc.
 Qed.
 
@@ -246,10 +248,10 @@ Proof.
   - rewrite read_pairs_eq, len_pos_cons. destruct fuel as [|f]; [cbn [length] in Hf; lia|].
     inversion Hok as [|? ? [Ha Hb] Hl]; subst. cbn [fst snd] in Ha, Hb.
     cbn [flat_map]. unfold write_pair at 1. cbn [fst snd]. rewrite <- !app_assoc.
-    rewrite (bind_ok _ _ _ a (mkrd (write_string b ++ flat_map write_pair l ++ r) (Z.max v (len a)))) by (apply read_string_write; exact Ha).
-    rewrite (bind_ok _ _ _ b (mkrd (flat_map write_pair l ++ r) (Z.max (Z.max v (len a)) (len b)))) by (apply read_string_write; exact Hb).
+    rewrite (bind_ok _ _ _ a (mkrd (write_string b ++ flat_map write_pair l ++ r) (rs_resv v a))) by (apply read_string_write; exact Ha).
+    rewrite (bind_ok _ _ _ b (mkrd (flat_map write_pair l ++ r) (rs_resv (rs_resv v a) b))) by (apply read_string_write; exact Hb).
     rewrite len_cons_pred.
-    destruct (IH f ((a, b) :: acc) r (Z.max (Z.max v (len a)) (len b))) as [v' E]; [cbn [length] in Hf; lia | exact Hl |].
+    destruct (IH f ((a, b) :: acc) r (rs_resv (rs_resv v a) b)) as [v' E]; [cbn [length] in Hf; lia | exact Hl |].
     exists v'. rewrite E. cbn [rev]. now rewrite <- app_assoc.
 Qed.
 
@@ -427,7 +429,7 @@ Proof.
     cbn [flat_map]. unfold write_zitem at 1. cbn [fst snd]. rewrite <- !app_assoc.
     rewrite (read_string_write m _ v Hm). rewrite (read_u64_le_ok sc _ _ Hs).
     rewrite (api_zadd_more ds i d0 d k acc m sc Hd Hn). rewrite len_cons_pred.
-    destruct (IH f ds i d0 d k (zs_insert m sc acc) r (Z.max v (len m)) Hd Hok) as [v' E]; [cbn [length] in Hf; lia|].
+    destruct (IH f ds i d0 d k (zs_insert m sc acc) r (rs_resv v m) Hd Hok) as [v' E]; [cbn [length] in Hf; lia|].
     exists v'. unfold mkrd in *. rewrite E. reflexivity.
 Qed.
 Lemma zlist_eqb_eq a : forall b, zlist_eqb a b = true -> a = b.
@@ -503,16 +505,16 @@ Lemma items_nonneg es : 0 <= items es.
 Proof. unfold items. induction es as [|e es IH]; cbn [fold_right]; [lia|]. pose proof (len_nonneg (snd e)). lia. Qed.
 
 Definition sentry_good (e : sid * list (bytes * bytes)) : Prop :=
-  0 <= fst (fst e) < two64 /\ 0 <= snd (fst e) < two64 /\ 1 <= len (snd e) /\ pairs_ok (snd e) /\ NoDup (map fst (snd e)).
+  0 <= fst (fst e) < two64 /\ 0 <= snd (fst e) < two64 /\ pairs_ok (snd e) /\ NoDup (map fst (snd e)).
 
-Lemma load_stream_eq chk fuel ds i k idx remaining s :
-  load_stream chk fuel ds i k idx remaining s =
+Lemma load_stream_eq fuel ds i k idx remaining pre s :
+  load_stream fuel ds i k idx remaining pre s =
   match fuel with
   | O => SErr s ds
   | S f =>
     if remaining <=? idx then SOk tt s ds else
-    if remaining <=? idx + 2 then SOk tt s ds else
-    match read_string s with
+    if remaining <? idx + 2 then SOk tt s ds else
+    match (match pre with Some id => (Some id, s) | None => read_string s end) with
     | (None, s1) => SErr s1 ds
     | (Some id_str, s1) =>
       match read_string s1 with
@@ -520,8 +522,7 @@ Lemma load_stream_eq chk fuel ds i k idx remaining s :
       | (Some fc_str, s2) =>
         let idx2 := idx + 2 in
         let fc := match parse_usize fc_str with Some n => n | None => 0 end in
-        if chk && ((two64 <=? fc * 2) || (two64 <=? idx2 + fc * 2)) then SPanic s2 ds else
-        if remaining <? (idx2 + (fc * 2) mod two64) mod two64 then SOk tt s2 ds else
+        if (two64 <=? idx2 + fc * 2) || (remaining <? idx2 + fc * 2) then SOk tt s2 ds else
         match read_pairs (S (length (r_in s2))) fc [] s2 with
         | (None, s3) => SErr s3 ds
         | (Some fv, s3) =>
@@ -529,7 +530,7 @@ Lemma load_stream_eq chk fuel ds i k idx remaining s :
                        | Some id => api_xadd ds i k id (h_ins_all [] fv)
                        | None => ds
                        end in
-            load_stream chk f ds' i k (idx2 + 2 * fc) remaining s3
+            load_stream f ds' i k (idx2 + 2 * fc) remaining None s3
         end
       end
     end
@@ -551,29 +552,31 @@ Proof.
   remember (length (write_string b)) as y. remember (length (flat_map write_pair l)) as z. lia.
 Qed.
 
-Lemma load_stream_step chk f ds i k idx remaining e r v :
+(** the bytes of an entry after its ID string *)
+Definition sentry_tail (e : sid * list (bytes * bytes)) : bytes :=
+  write_string (print_nat (len (snd e))) ++ flat_map write_pair (snd e).
+Lemma write_sentry_tail e : write_sentry e = write_string (sid_text (fst e)) ++ sentry_tail e.
+Proof. reflexivity. Qed.
+
+Lemma load_stream_step_pre f ds i k idx remaining e r v :
   sentry_good e -> 0 <= idx -> remaining < two32 ->
   idx + 2 + 2 * len (snd e) <= remaining ->
-  exists v', load_stream chk (S f) ds i k idx remaining (mkrd (write_sentry e ++ r) v)
-           = load_stream chk f (api_xadd ds i k (fst e) (snd e)) i k (idx + 2 + 2 * len (snd e)) remaining (mkrd r v').
+  exists v', load_stream (S f) ds i k idx remaining (Some (sid_text (fst e))) (mkrd (sentry_tail e ++ r) v)
+           = load_stream f (api_xadd ds i k (fst e) (snd e)) i k (idx + 2 + 2 * len (snd e)) remaining None (mkrd r v').
 Proof.
-  intros (Hi1 & Hi2 & Hn & Hp & Hnd) Hidx Hrem Hfit.
+  intros (Hi1 & Hi2 & Hp & Hnd) Hidx Hrem Hfit.
+  pose proof (len_nonneg (snd e)) as Hl.
   rewrite load_stream_eq.
-  replace (remaining <=? idx) with false by lia. replace (remaining <=? idx + 2) with false by lia.
-  unfold write_sentry. rewrite <- !app_assoc.
-  rewrite (read_string_write _ _ v (len_sid_text (fst e))).
+  replace (remaining <=? idx) with false by lia. replace (remaining <? idx + 2) with false by lia.
+  unfold sentry_tail. rewrite <- !app_assoc.
   assert (Hfc : len (print_nat (len (snd e))) < two32) by (pose proof (len_print_nat (len (snd e))); unfold two32; lia).
   rewrite (read_string_write _ _ _ Hfc).
-  pose proof (len_nonneg (snd e)) as Hl.
   assert (Hl32 : len (snd e) < two32) by lia.
   rewrite parse_usize_print_nat by (unfold u64_max, two32 in *; lia).
   cbv zeta.
-  replace (two64 <=? len (snd e) * 2) with false by (unfold two64, two32 in *; lia).
   replace (two64 <=? idx + 2 + len (snd e) * 2) with false by (unfold two64, two32 in *; lia).
-  rewrite orb_false_r, andb_false_r.
-  rewrite (Z.mod_small (len (snd e) * 2)) by (unfold two64, two32 in *; lia).
-  rewrite (Z.mod_small (idx + 2 + len (snd e) * 2)) by (unfold two64, two32 in *; lia).
   replace (remaining <? idx + 2 + len (snd e) * 2) with false by lia.
+  cbn [orb].
   match goal with |- context [read_pairs ?fu _ _ (mkrd (?x ++ r) ?vv)] =>
     destruct (read_pairs_ok (snd e) fu [] r vv) as [v' E] end.
   { cbn [r_in mkrd]. rewrite app_length. pose proof (flat_map_pairs_length (snd e)). lia. }
@@ -583,14 +586,28 @@ Proof.
   rewrite (h_ins_all_fresh (snd e) []) by exact Hnd. cbn [app].
   exists v'. reflexivity.
 Qed.
+Lemma load_stream_step f ds i k idx remaining e r v :
+  sentry_good e -> 0 <= idx -> remaining < two32 ->
+  idx + 2 + 2 * len (snd e) <= remaining ->
+  exists v', load_stream (S f) ds i k idx remaining None (mkrd (write_sentry e ++ r) v)
+           = load_stream f (api_xadd ds i k (fst e) (snd e)) i k (idx + 2 + 2 * len (snd e)) remaining None (mkrd r v').
+Proof.
+  intros Hg Hidx Hrem Hfit.
+  destruct (load_stream_step_pre f ds i k idx remaining e r (rs_resv v (sid_text (fst e))) Hg Hidx Hrem Hfit) as [v' E].
+  exists v'. rewrite <- E. pose proof (len_nonneg (snd e)) as Hl.
+  rewrite !load_stream_eq.
+  replace (remaining <=? idx) with false by lia. replace (remaining <? idx + 2) with false by lia.
+  rewrite write_sentry_tail, <- app_assoc.
+  rewrite (read_string_write _ _ v (len_sid_text (fst e))). reflexivity.
+Qed.
 
 Definition xadd_all (ds : list db) (i : Z) (k : bytes) (es : list (sid * list (bytes * bytes))) : list db :=
   fold_left (fun a e => api_xadd a i k (fst e) (snd e)) es ds.
 
-Lemma load_stream_all chk es : forall fuel ds i k idx remaining r v,
+Lemma load_stream_all es : forall fuel ds i k idx remaining r v,
   (length es < fuel)%nat -> Forall sentry_good es -> 0 <= idx -> remaining < two32 ->
   remaining = idx + items es ->
-  exists v', load_stream chk fuel ds i k idx remaining (mkrd (flat_map write_sentry es ++ r) v)
+  exists v', load_stream fuel ds i k idx remaining None (mkrd (flat_map write_sentry es ++ r) v)
            = SOk tt (mkrd r v') (xadd_all ds i k es).
 Proof.
   induction es as [|e es IH]; intros fuel ds i k idx remaining r v Hf Hg Hidx Hrem Hit.
@@ -602,9 +619,9 @@ Proof.
     unfold items in Hit. cbn [fold_right] in Hit. fold (items es) in Hit.
     pose proof (items_nonneg es) as Hnn.
     cbn [flat_map]. rewrite <- app_assoc.
-    destruct (load_stream_step chk f ds i k idx remaining e (flat_map write_sentry es ++ r) v He Hidx Hrem ltac:(lia)) as [v1 E1].
+    destruct (load_stream_step f ds i k idx remaining e (flat_map write_sentry es ++ r) v He Hidx Hrem ltac:(lia)) as [v1 E1].
     rewrite E1.
-    destruct He as (_ & _ & Hn & _).
+    pose proof (len_nonneg (snd e)) as Hn.
     destruct (IH f (api_xadd ds i k (fst e) (snd e)) i k (idx + 2 + 2 * len (snd e)) remaining r v1) as [v' E2];
       [cbn [length] in Hf; lia | exact Hes | lia | exact Hrem | lia |].
     exists v'. rewrite E2. reflexivity.
@@ -677,9 +694,8 @@ Proof.
     apply andb_prop in Hs. destruct Hs as [Hs _]. apply andb_prop in Hs. destruct Hs as [Hs H2].
     apply andb_prop in Hs. destruct Hs as [_ H1].
     apply andb_prop in Hf. destruct Hf as [Hf _]. unfold sentry_ok in Hf.
-    apply andb_prop in Hf. destruct Hf as [Hf Hnd]. apply andb_prop in Hf. destruct Hf as [Hlen Hp].
+    apply andb_prop in Hf. destruct Hf as [Hp Hnd].
     unfold sentry_good. repeat split; try (apply u64b_range; assumption).
-    + apply negb_true_iff, Z.eqb_neq in Hlen. pose proof (len_nonneg (snd e)). lia.
     + now apply forallb_pairs_ok.
     + now apply nodupb_NoDup.
   - cbn [sids_ok] in Hs. cbn [forallb] in Hf. apply andb_prop in Hs. destruct Hs as [_ Hs].
@@ -714,8 +730,8 @@ Proof.
   remember (length (flat_map write_sentry l)) as z. lia.
 Qed.
 
-Lemma load_kv_string chk now ds i ttl s :
-  load_kv chk now ds i T_STRING ttl s =
+Lemma load_kv_string now ds i ttl s :
+  load_kv now ds i T_STRING ttl s =
     match read_string s with
     | (None, s1) => SErr s1 ds
     | (Some k, s1) =>
@@ -726,9 +742,9 @@ Lemma load_kv_string chk now ds i ttl s :
     end.
 Proof. reflexivity. Qed.
 
-Lemma load_kv_value_str chk now ds i d k b ttl r rv :
+Lemma load_kv_value_str now ds i d k b ttl r rv :
   get_dbi ds i = Some d -> len k < two32 -> len b < two32 ->
-  exists rv', load_kv chk now ds i T_STRING ttl (mkrd (write_string k ++ write_string b ++ r) rv)
+  exists rv', load_kv now ds i T_STRING ttl (mkrd (write_string k ++ write_string b ++ r) rv)
             = SOk tt (mkrd r rv') (set_dbi ds i (ins_key d k (VStr b) (deadline now ttl))).
 Proof.
   intros Hd Hk Hb. rewrite load_kv_string.
@@ -736,8 +752,8 @@ Proof.
   rewrite (api_set_fresh now ds i d k b ttl Hd). eexists. reflexivity.
 Qed.
 
-Lemma load_kv_set chk now ds i ttl s :
-  load_kv chk now ds i T_SET ttl s =
+Lemma load_kv_set now ds i ttl s :
+  load_kv now ds i T_SET ttl s =
     match read_string s with
     | (None, s1) => SErr s1 ds
     | (Some k, s1) =>
@@ -756,9 +772,9 @@ Lemma load_kv_set chk now ds i ttl s :
     end.
 Proof. reflexivity. Qed.
 
-Lemma load_kv_value_set chk now ds i d k ms ttl r rv :
+Lemma load_kv_value_set now ds i d k ms ttl r rv :
   get_dbi ds i = Some d -> get_entry d k = None -> len k < two32 -> len ms < two32 -> strs_ok ms -> NoDup ms ->
-  exists rv', load_kv chk now ds i T_SET ttl (mkrd (write_string k ++ write_length (len ms) ++ flat_map write_string ms ++ r) rv)
+  exists rv', load_kv now ds i T_SET ttl (mkrd (write_string k ++ write_length (len ms) ++ flat_map write_string ms ++ r) rv)
             = SOk tt (mkrd r rv') (set_dbi ds i (ins_key d k (VSet ms) (deadline now ttl))).
 Proof.
   intros Hd Hfr Hk Hn Hs Hnd. rewrite load_kv_set.
@@ -773,8 +789,8 @@ Proof.
   rewrite (api_expire_opt_new now ds i d d k (VSet ms) ttl Hd). eexists. reflexivity.
 Qed.
 
-Lemma load_kv_hash chk now ds i ttl s :
-  load_kv chk now ds i T_HASH ttl s =
+Lemma load_kv_hash now ds i ttl s :
+  load_kv now ds i T_HASH ttl s =
     match read_string s with
     | (None, s1) => SErr s1 ds
     | (Some k, s1) =>
@@ -793,9 +809,9 @@ Lemma load_kv_hash chk now ds i ttl s :
     end.
 Proof. reflexivity. Qed.
 
-Lemma load_kv_value_hash chk now ds i d k fv ttl r rv :
+Lemma load_kv_value_hash now ds i d k fv ttl r rv :
   get_dbi ds i = Some d -> get_entry d k = None -> len k < two32 -> len fv < two32 -> pairs_ok fv -> NoDup (map fst fv) ->
-  exists rv', load_kv chk now ds i T_HASH ttl (mkrd (write_string k ++ write_length (len fv) ++ flat_map write_pair fv ++ r) rv)
+  exists rv', load_kv now ds i T_HASH ttl (mkrd (write_string k ++ write_length (len fv) ++ flat_map write_pair fv ++ r) rv)
             = SOk tt (mkrd r rv') (set_dbi ds i (ins_key d k (VHash fv) (deadline now ttl))).
 Proof.
   intros Hd Hfr Hk Hn Hs Hnd. rewrite load_kv_hash.
@@ -810,8 +826,8 @@ Proof.
   rewrite (api_expire_opt_new now ds i d d k (VHash fv) ttl Hd). eexists. reflexivity.
 Qed.
 
-Lemma load_kv_zset chk now ds i ttl s :
-  load_kv chk now ds i T_ZSET ttl s =
+Lemma load_kv_zset now ds i ttl s :
+  load_kv now ds i T_ZSET ttl s =
     match read_string s with
     | (None, s1) => SErr s1 ds
     | (Some k, s1) =>
@@ -826,10 +842,10 @@ Lemma load_kv_zset chk now ds i ttl s :
     end.
 Proof. reflexivity. Qed.
 
-Lemma load_kv_value_zset chk now ds i d k z ttl r rv :
+Lemma load_kv_value_zset now ds i d k z ttl r rv :
   get_dbi ds i = Some d -> get_entry d k = None -> len k < two32 -> len z < two32 -> zitems_ok z ->
   z <> [] -> zs_rebuild z = z ->
-  exists rv', load_kv chk now ds i T_ZSET ttl (mkrd (write_string k ++ write_length (len z) ++ flat_map write_zitem z ++ r) rv)
+  exists rv', load_kv now ds i T_ZSET ttl (mkrd (write_string k ++ write_length (len z) ++ flat_map write_zitem z ++ r) rv)
             = SOk tt (mkrd r rv') (set_dbi ds i (ins_key d k (VZSet z) (deadline now ttl))).
 Proof.
   intros Hd Hfr Hk Hn Hs Hne Hcan. rewrite load_kv_zset.
@@ -851,8 +867,8 @@ Proof.
   rewrite (api_expire_opt_new now ds i d d k _ ttl Hd). eexists. reflexivity.
 Qed.
 
-Lemma load_kv_list chk now ds i ttl s :
-  load_kv chk now ds i T_LIST ttl s =
+Lemma load_kv_list now ds i ttl s :
+  load_kv now ds i T_LIST ttl s =
     match read_string s with
     | (None, s1) => SErr s1 ds
     | (Some k, s1) =>
@@ -863,137 +879,218 @@ Lemma load_kv_list chk now ds i ttl s :
           match read_string s2 with
           | (None, s3) => SErr s3 ds
           | (Some first, s3) =>
-            if beq first marker then
-              match load_stream chk (S (length (r_in s))) ds i k 0 (n - 1) s3 with
-              | SOk _ s4 ds1 => lift_api tt s4 ds1 (api_expire_opt now ds1 i k ttl)
-              | r => r
-              end
-            else
-              match api_rpush ds i k [first] with
-              | None => SErr s3 ds
-              | Some ds1 =>
-                match read_strings_partial (S (length (r_in s))) (n - 1) [] s3 with
-                | (els, ok, s4) =>
-                  match (match els with [] => Some ds1 | _ => api_rpush ds1 i k els end) with
-                  | None => SErr s4 ds1
-                  | Some ds2 =>
-                      if ok then lift_api tt s4 ds2 (api_expire_opt now ds2 i k ttl) else SErr s4 ds2
+            let look :=
+              if beq first marker && (2 <=? n) then
+                match read_string s3 with
+                | (None, s4) => (None, s4)
+                | (Some second, s4) =>
+                    if beq second marker then (Some (false, n - 1, None), s4)
+                    else (Some (true, n, Some second), s4)
+                end
+              else (Some (beq first marker, n, None), s3) in
+            match look with
+            | (None, s4) => SErr s4 ds
+            | (Some (is_stream, n', pre), s4) =>
+              if is_stream then
+                match api_set_value now ds i k (VStream (mkstream [] (0, 0) 0)) None with
+                | None => SErr s4 ds
+                | Some ds0 =>
+                  match load_stream (S (length (r_in s))) ds0 i k 0 (n' - 1) pre s4 with
+                  | SOk _ s5 ds1 => lift_api tt s5 ds1 (api_expire_opt now ds1 i k ttl)
+                  | r => r
                   end
                 end
-              end
+              else
+                match api_rpush ds i k [first] with
+                | None => SErr s4 ds
+                | Some ds1 =>
+                  match read_strings_partial (S (length (r_in s))) (n' - 1) [] s4 with
+                  | (els, ok, s5) =>
+                    match (match els with [] => Some ds1 | _ => api_rpush ds1 i k els end) with
+                    | None => SErr s5 ds1
+                    | Some ds2 =>
+                        if ok then lift_api tt s5 ds2 (api_expire_opt now ds2 i k ttl) else SErr s5 ds2
+                    end
+                  end
+                end
+            end
           end
         else lift_api tt s2 ds (api_expire_opt now ds i k ttl)
       end
     end.
 Proof. reflexivity. Qed.
 
-Lemma load_kv_value_list chk now ds i d k first rest ttl r rv :
-  get_dbi ds i = Some d -> get_entry d k = None -> len k < two32 -> len (first :: rest) < two32 ->
-  strs_ok (first :: rest) -> beq first marker = false ->
-  exists rv', load_kv chk now ds i T_LIST ttl
-                (mkrd (write_string k ++ write_length (len (first :: rest)) ++ flat_map write_string (first :: rest) ++ r) rv)
+Lemma load_kv_value_list now ds i d k first rest ttl r rv :
+  get_dbi ds i = Some d -> get_entry d k = None -> len k < two32 -> len (first :: rest) + 1 < two32 ->
+  strs_ok (first :: rest) ->
+  exists rv', load_kv now ds i T_LIST ttl
+                (mkrd (write_string k ++ write_length (len (first :: rest) + (if list_escaped (first :: rest) then 1 else 0))
+                       ++ (if list_escaped (first :: rest) then write_string marker else [])
+                       ++ flat_map write_string (first :: rest) ++ r) rv)
             = SOk tt (mkrd r rv') (set_dbi ds i (ins_key d k (VList (first :: rest)) (deadline now ttl))).
 Proof.
-  intros Hd Hfr Hk Hn Hs Hm. rewrite load_kv_list.
+  intros Hd Hfr Hk Hn Hs. rewrite load_kv_list.
   rewrite (read_string_write k _ rv Hk).
-  rewrite read_length_write by (pose proof (len_nonneg (first :: rest)); lia).
   pose proof (len_nonneg rest) as Hr0.
-  replace (1 <=? len (first :: rest)) with true by (rewrite len_cons; lia).
+  assert (Hl : len (first :: rest) = 1 + len rest) by apply len_cons.
   apply Forall_cons_iff in Hs. destruct Hs as [Hf Hrest].
-  cbn [flat_map]. rewrite <- app_assoc.
-  rewrite (read_string_write first _ _ Hf). rewrite Hm.
-  rewrite (api_rpush_fresh ds i d k [first] Hd Hfr).
-  rewrite len_cons_pred.
-  match goal with |- context [read_strings_partial ?fu _ _ (mkrd _ ?vv)] =>
-    destruct (read_strings_partial_ok rest fu [] r vv) as [v' E] end.
-  { cbn [r_in mkrd]. rewrite !app_length. pose proof (flat_map_strings_length rest). lia. }
-  { exact Hrest. }
-  unfold mkrd in *. rewrite E. cbn [rev app].
-  destruct rest as [|x rest'].
-  - rewrite (api_expire_opt_new now ds i d d k _ ttl Hd). eexists. reflexivity.
-  - rewrite (api_rpush_more ds i d d k [first] (x :: rest') Hd). cbn [app].
-    rewrite (api_expire_opt_new now ds i d d k _ ttl Hd). eexists. reflexivity.
+  cbn [list_escaped]. destruct (beq first marker) eqn:Hm.
+  - (* the marker is doubled in the file *)
+    apply beq_eq in Hm. subst first.
+    rewrite read_length_write by lia.
+    replace (1 <=? len (marker :: rest) + 1) with true by lia.
+    rewrite (read_string_write marker _ _ Hf). rewrite beq_refl.
+    replace (2 <=? len (marker :: rest) + 1) with true by lia. cbn [andb].
+    cbn [flat_map]. rewrite <- app_assoc.
+    rewrite (read_string_write marker _ _ Hf). rewrite beq_refl. cbv zeta.
+    rewrite (api_rpush_fresh ds i d k [marker] Hd Hfr).
+    replace (len (marker :: rest) + 1 - 1 - 1) with (len rest) by lia.
+    match goal with |- context [read_strings_partial ?fu _ _ (mkrd _ ?vv)] =>
+      destruct (read_strings_partial_ok rest fu [] r vv) as [v' E] end.
+    { cbn [r_in mkrd]. rewrite !app_length. pose proof (flat_map_strings_length rest). lia. }
+    { exact Hrest. }
+    unfold mkrd in *. rewrite E. cbn [rev app].
+    destruct rest as [|x rest'].
+    + rewrite (api_expire_opt_new now ds i d d k _ ttl Hd). eexists. reflexivity.
+    + rewrite (api_rpush_more ds i d d k [marker] (x :: rest') Hd). cbn [app].
+      rewrite (api_expire_opt_new now ds i d d k _ ttl Hd). eexists. reflexivity.
+  - rewrite Z.add_0_r. cbn [app].
+    rewrite read_length_write by lia.
+    replace (1 <=? len (first :: rest)) with true by lia.
+    cbn [flat_map]. rewrite <- app_assoc.
+    rewrite (read_string_write first _ _ Hf). rewrite Hm. cbn [andb]. cbv zeta.
+    rewrite (api_rpush_fresh ds i d k [first] Hd Hfr).
+    replace (len (first :: rest) - 1) with (len rest) by lia.
+    match goal with |- context [read_strings_partial ?fu _ _ (mkrd _ ?vv)] =>
+      destruct (read_strings_partial_ok rest fu [] r vv) as [v' E] end.
+    { cbn [r_in mkrd]. rewrite !app_length. pose proof (flat_map_strings_length rest). lia. }
+    { exact Hrest. }
+    unfold mkrd in *. rewrite E. cbn [rev app].
+    destruct rest as [|x rest'].
+    + rewrite (api_expire_opt_new now ds i d d k _ ttl Hd). eexists. reflexivity.
+    + rewrite (api_rpush_more ds i d d k [first] (x :: rest') Hd). cbn [app].
+      rewrite (api_expire_opt_new now ds i d d k _ ttl Hd). eexists. reflexivity.
 Qed.
 
 Lemma len_marker : len marker = 25.
 Proof. reflexivity. Qed.
 
-Lemma load_kv_value_stream chk now ds i d k s ttl r rv :
+Lemma sid_text_not_marker id : 0 <= fst id < two64 -> beq (sid_text id) marker = false.
+Proof.
+  intros H. unfold sid_text.
+  destruct (print_nat_head (fst id)) as (c & r & Hc & Hdig); [unfold two64 in H; lia|].
+  rewrite Hc. cbn [app]. unfold marker. cbn [bs beq]. unfold is_digit in Hdig.
+  replace (c =? _) with false by (cbn; lia). reflexivity.
+Qed.
+Lemma api_set_value_stream now ds i d k v :
+  get_dbi ds i = Some d -> api_set_value now ds i k v None = Some (set_dbi ds i (new_key d k v)).
+Proof. intros Hd. unfold api_set_value. rewrite Hd. reflexivity. Qed.
+
+Lemma load_kv_value_stream now ds i d k s ttl r rv :
   get_dbi ds i = Some d -> get_entry d k = None -> len k < two32 ->
-  stream_items (s_entries s) < two32 -> s_entries s <> [] ->
+  stream_items (s_entries s) < two32 ->
   sids_ok (0, 0) (s_entries s) = true -> Forall sentry_good (s_entries s) ->
-  exists rv', load_kv chk now ds i T_LIST ttl
+  exists rv', load_kv now ds i T_LIST ttl
                 (mkrd (write_string k ++ write_length (stream_items (s_entries s)) ++ write_string marker
                        ++ flat_map write_sentry (s_entries s) ++ r) rv)
             = SOk tt (mkrd r rv') (set_dbi ds i (ins_key d k (norm_value (VStream s)) (deadline now ttl))).
 Proof.
-  intros Hd Hfr Hk Hn Hne Hids Hg. rewrite load_kv_list.
+  intros Hd Hfr Hk Hn Hids Hg. rewrite load_kv_list.
   rewrite (read_string_write k _ rv Hk).
   pose proof (items_nonneg (s_entries s)) as Hi0. rewrite stream_items_items in *.
   rewrite read_length_write by lia.
   replace (1 <=? 1 + items (s_entries s)) with true by lia.
   rewrite (read_string_write marker) by (rewrite len_marker; unfold two32; lia).
-  rewrite beq_refl.
-  replace (1 + items (s_entries s) - 1) with (0 + items (s_entries s)) by lia.
-  match goal with |- context [load_stream _ ?fu _ _ _ _ _ (mkrd _ ?vv)] =>
-    destruct (load_stream_all chk (s_entries s) fu ds i k 0 (0 + items (s_entries s)) r vv) as [v' E] end.
-  { cbn [r_in mkrd]. rewrite !app_length. pose proof (flat_map_sentries_length (s_entries s)). lia. }
-  { exact Hg. } { lia. } { lia. } { reflexivity. }
-  rewrite E.
-  rewrite (xadd_all_fresh ds i d k (s_entries s) Hd Hfr Hne Hids).
-  rewrite (api_expire_opt_new now ds i d d k _ ttl Hd). eexists. reflexivity.
+  rewrite beq_refl. cbn [andb norm_value].
+  destruct (s_entries s) as [|e es] eqn:Ees.
+  - (* an emptied stream: the marker alone *)
+    unfold items. cbn [fold_right flat_map app]. replace (2 <=? 1 + 0) with false by lia. cbv zeta.
+    rewrite (api_set_value_stream now ds i d k _ Hd).
+    replace (1 + 0 - 1) with 0 by lia. rewrite load_stream_eq. cbn [Z.leb Z.compare].
+    rewrite (api_expire_opt_new now ds i d d k _ ttl Hd). eexists. reflexivity.
+  - apply Forall_cons_iff in Hg. destruct Hg as [He Hes].
+    pose proof (len_nonneg (snd e)) as Hl. pose proof (items_nonneg es) as Hi1.
+    unfold items in Hi0, Hn |- *. cbn [fold_right] in *. fold (items es) in *.
+    replace (2 <=? 1 + (2 + 2 * len (snd e) + items es)) with true by lia.
+    cbn [flat_map]. rewrite write_sentry_tail. rewrite <- !app_assoc.
+    rewrite (read_string_write _ _ _ (len_sid_text (fst e))).
+    destruct He as (Hi1' & Hi2' & Hp & Hnd).
+    rewrite (sid_text_not_marker (fst e) Hi1'). cbv zeta.
+    rewrite (api_set_value_stream now ds i d k _ Hd).
+    replace (1 + (2 + 2 * len (snd e) + items es) - 1) with (0 + 2 + 2 * len (snd e) + items es) by lia.
+    set (ds0 := set_dbi ds i (new_key d k (VStream (mkstream [] (0, 0) 0)))).
+    assert (Hd0 : get_dbi ds0 i = Some (new_key d k (VStream (mkstream [] (0, 0) 0)))) by (eapply get_set_dbi; eauto).
+    match goal with |- context [load_stream (S ?fu) _ _ _ _ ?rem _ (mkrd _ ?vv)] =>
+      destruct (load_stream_step_pre fu ds0 i k 0 rem e (flat_map write_sentry es ++ r) vv) as [v1 E1] end.
+    { exact (conj Hi1' (conj Hi2' (conj Hp Hnd))). } { lia. } { lia. } { lia. }
+    rewrite E1.
+    match goal with |- context [load_stream ?fu ?dsx _ _ ?ix ?rem None (mkrd _ ?vv)] =>
+      destruct (load_stream_all es fu dsx i k ix rem r vv) as [v' E2] end.
+    { cbn [r_in mkrd]. rewrite !app_length. pose proof (flat_map_sentries_length es) as HA.
+      pose proof (write_string_length k) as HB.
+      remember (Datatypes.length (write_string k)) as n1. remember (Datatypes.length (flat_map write_sentry es)) as n2.
+      remember (Datatypes.length es) as n3. clear - HA HB. lia. }
+    { exact Hes. } { lia. } { lia. } { lia. }
+    rewrite E2.
+    (* the adds on the (empty) stream that set_value created *)
+    cbn [sids_ok] in Hids. apply andb_prop in Hids. destruct Hids as [Hid1 Hidr].
+    apply andb_prop in Hid1. destruct Hid1 as [Hid1 _]. apply andb_prop in Hid1. destruct Hid1 as [Hid1 _].
+    apply negb_true_iff in Hid1.
+    unfold ds0. rewrite (api_xadd_more ds i d d k [] (0, 0) 0 (fst e) (snd e) Hd Hid1). cbn [app].
+    rewrite (xadd_all_more es ds i d d k [(fst e, snd e)] (fst e) (0 + 1) Hd Hidr).
+    rewrite (api_expire_opt_new now ds i d d k _ ttl Hd).
+    eexists. cbn [last_sid]. rewrite len_cons. destruct e as [eid ef]. cbn [fst snd app]. reflexivity.
 Qed.
 
 (** any well-formed value, fresh key: [write_value k v] is a plain type byte [t] followed by a
     payload [p] that [load_kv] turns into the key *)
-Lemma load_kv_value chk now ds i d k v ttl r rv :
+Lemma load_kv_value now ds i d k v ttl r rv :
   get_dbi ds i = Some d -> get_entry d k = None -> str_ok k = true -> value_ok v = true ->
   exists t p rv', write_value k v = t :: p /\ 0 <= t <= 4 /\
-    load_kv chk now ds i t ttl (mkrd (p ++ r) rv)
+    load_kv now ds i t ttl (mkrd (p ++ r) rv)
     = SOk tt (mkrd r rv') (set_dbi ds i (ins_key d k (norm_value v) (deadline now ttl))).
 Proof.
   intros Hd Hfr Hk Hv. apply str_ok_lt in Hk.
   destruct v as [b|l|s|h|z|s]; unfold value_ok in Hv; unfold norm_value.
-  - destruct (load_kv_value_str chk now ds i d k b ttl r rv Hd Hk (str_ok_lt _ Hv)) as [rv' E].
+  - destruct (load_kv_value_str now ds i d k b ttl r rv Hd Hk (str_ok_lt _ Hv)) as [rv' E].
     exists T_STRING, (write_string k ++ write_string b), rv'. split; [reflexivity|]. split; [unfold T_STRING; lia|].
     rewrite <- app_assoc. exact E.
   - apply andb_prop in Hv. destruct Hv as [Hv Hm]. apply andb_prop in Hv. destruct Hv as [Hn Hs].
     unfold lt32 in Hn. apply Z.ltb_lt in Hn. apply forallb_strs_ok in Hs.
-    destruct l as [|first rest]; [discriminate|]. apply negb_true_iff in Hm.
-    destruct (load_kv_value_list chk now ds i d k first rest ttl r rv Hd Hfr Hk Hn Hs Hm) as [rv' E].
-    exists T_LIST, (write_string k ++ write_length (len (first :: rest)) ++ flat_map write_string (first :: rest)), rv'.
+    destruct l as [|first rest]; [discriminate|].
+    destruct (load_kv_value_list now ds i d k first rest ttl r rv Hd Hfr Hk Hn Hs) as [rv' E].
+    exists T_LIST, (write_string k ++ write_length (len (first :: rest) + (if list_escaped (first :: rest) then 1 else 0))
+                    ++ (if list_escaped (first :: rest) then write_string marker else []) ++ flat_map write_string (first :: rest)), rv'.
     split; [reflexivity|]. split; [unfold T_LIST; lia|]. rewrite <- !app_assoc. exact E.
   - apply andb_prop in Hv. destruct Hv as [Hv Hnd]. apply andb_prop in Hv. destruct Hv as [Hn Hs].
     unfold lt32 in Hn. apply Z.ltb_lt in Hn. apply forallb_strs_ok in Hs. apply nodupb_NoDup in Hnd.
-    destruct (load_kv_value_set chk now ds i d k s ttl r rv Hd Hfr Hk Hn Hs Hnd) as [rv' E].
+    destruct (load_kv_value_set now ds i d k s ttl r rv Hd Hfr Hk Hn Hs Hnd) as [rv' E].
     exists T_SET, (write_string k ++ write_length (len s) ++ flat_map write_string s), rv'.
     split; [reflexivity|]. split; [unfold T_SET; lia|]. rewrite <- !app_assoc. exact E.
   - apply andb_prop in Hv. destruct Hv as [Hv Hnd]. apply andb_prop in Hv. destruct Hv as [Hn Hs].
     unfold lt32 in Hn. apply Z.ltb_lt in Hn. apply forallb_pairs_ok in Hs. apply nodupb_NoDup in Hnd.
-    destruct (load_kv_value_hash chk now ds i d k h ttl r rv Hd Hfr Hk Hn Hs Hnd) as [rv' E].
+    destruct (load_kv_value_hash now ds i d k h ttl r rv Hd Hfr Hk Hn Hs Hnd) as [rv' E].
     exists T_HASH, (write_string k ++ write_length (len h) ++ flat_map write_pair h), rv'.
     split; [reflexivity|]. split; [unfold T_HASH; lia|]. rewrite <- !app_assoc. exact E.
   - apply andb_prop in Hv. destruct Hv as [Hv Hcan]. apply andb_prop in Hv. destruct Hv as [Hv Hne].
     apply andb_prop in Hv. destruct Hv as [Hn Hs].
     unfold lt32 in Hn. apply Z.ltb_lt in Hn. apply forallb_zitems_ok in Hs. apply zlist_eqb_eq in Hcan.
     assert (Hne' : z <> []) by (intros ->; discriminate).
-    destruct (load_kv_value_zset chk now ds i d k z ttl r rv Hd Hfr Hk Hn Hs Hne' Hcan) as [rv' E].
+    destruct (load_kv_value_zset now ds i d k z ttl r rv Hd Hfr Hk Hn Hs Hne' Hcan) as [rv' E].
     exists T_ZSET, (write_string k ++ write_length (len z) ++ flat_map write_zitem z), rv'.
     split; [reflexivity|]. split; [unfold T_ZSET; lia|]. rewrite <- !app_assoc. exact E.
-  - apply andb_prop in Hv. destruct Hv as [Hv Hse]. apply andb_prop in Hv. destruct Hv as [Hv Hids].
-    apply andb_prop in Hv. destruct Hv as [Hn Hne].
+  - apply andb_prop in Hv. destruct Hv as [Hv Hse]. apply andb_prop in Hv. destruct Hv as [Hn Hids].
     unfold lt32 in Hn. apply Z.ltb_lt in Hn.
-    assert (Hne' : s_entries s <> []) by (intros E; rewrite E in Hne; discriminate).
     pose proof (sentry_ok_good _ _ Hids Hse) as Hg.
-    destruct (load_kv_value_stream chk now ds i d k s ttl r rv Hd Hfr Hk Hn Hne' Hids Hg) as [rv' E].
+    destruct (load_kv_value_stream now ds i d k s ttl r rv Hd Hfr Hk Hn Hids Hg) as [rv' E].
     exists T_LIST, (write_string k ++ write_length (stream_items (s_entries s)) ++ write_string marker
                     ++ flat_map write_sentry (s_entries s)), rv'.
     split; [reflexivity|]. split; [unfold T_LIST; lia|]. rewrite <- !app_assoc. exact E.
 Qed.
 
 (** ---- one iteration of the opcode loop ---- *)
-Lemma load_loop_eq chk now wall f cur ds s :
-  load_loop chk now wall (S f) cur ds s =
+Lemma load_loop_eq now wall f cur ds s :
+  load_loop now wall (S f) cur ds s =
     match read_byte s with
     | (None, s1) => (LErr, ds, s1)
     | (Some op, s1) =>
@@ -1004,44 +1101,44 @@ Lemma load_loop_eq chk now wall f cur ds s :
         end
       else if op =? OP_SELECTDB then
         match read_length s1 with
-        | (Some n, s2) => load_loop chk now wall f n ds s2
+        | (Some n, s2) => load_loop now wall f n ds s2
         | (None, s2) => (LErr, ds, s2)
         end
       else if op =? OP_RESIZEDB then
         match (_ <- read_length ;; read_length) s1 with
-        | (Some _, s2) => load_loop chk now wall f cur ds s2
+        | (Some _, s2) => load_loop now wall f cur ds s2
         | (None, s2) => (LErr, ds, s2)
         end
       else if op =? OP_AUX then
         match (_ <- read_string ;; read_string) s1 with
-        | (Some _, s2) => load_loop chk now wall f cur ds s2
+        | (Some _, s2) => load_loop now wall f cur ds s2
         | (None, s2) => (LErr, ds, s2)
         end
       else
         let r := if op =? OP_EXPIRE_MS then
                    match read_u64_le s1 with
-                   | (Some e, s2) => load_kv_expiry chk now wall ds cur e s2
+                   | (Some e, s2) => load_kv_expiry now wall ds cur e s2
                    | (None, s2) => SErr s2 ds
                    end
                  else if op =? OP_EXPIRE_S then
                    match read_u32_le s1 with
-                   | (Some e, s2) => load_kv_expiry chk now wall ds cur (e * 1000) s2
+                   | (Some e, s2) => load_kv_expiry now wall ds cur (e * 1000) s2
                    | (None, s2) => SErr s2 ds
                    end
-                 else load_kv chk now ds cur op None s1 in
+                 else load_kv now ds cur op None s1 in
         match r with
-        | SOk _ s2 ds' => load_loop chk now wall f cur ds' s2
+        | SOk _ s2 ds' => load_loop now wall f cur ds' s2
         | SErr s2 ds' => (LErr, ds', s2)
         | SPanic s2 ds' => (LPanic, ds', s2)
         end
     end.
 Proof. reflexivity. Qed.
 
-Lemma load_loop_plain chk now wall f cur ds t rest rv :
+Lemma load_loop_plain now wall f cur ds t rest rv :
   0 <= t <= 4 ->
-  load_loop chk now wall (S f) cur ds (mkrd (t :: rest) rv) =
-    match load_kv chk now ds cur t None (mkrd rest rv) with
-    | SOk _ s2 ds' => load_loop chk now wall f cur ds' s2
+  load_loop now wall (S f) cur ds (mkrd (t :: rest) rv) =
+    match load_kv now ds cur t None (mkrd rest rv) with
+    | SOk _ s2 ds' => load_loop now wall f cur ds' s2
     | SErr s2 ds' => (LErr, ds', s2)
     | SPanic s2 ds' => (LPanic, ds', s2)
     end.
@@ -1056,11 +1153,11 @@ Proof.
   reflexivity.
 Qed.
 
-Lemma load_loop_expire chk now wall f cur ds e t rest rv :
+Lemma load_loop_expire now wall f cur ds e t rest rv :
   0 <= e < two64 ->
-  load_loop chk now wall (S f) cur ds (mkrd (OP_EXPIRE_MS :: u64_le e ++ t :: rest) rv) =
-    match load_kv chk now ds cur t (if wall <? e then Some (e - wall) else None) (mkrd rest rv) with
-    | SOk _ s2 ds' => load_loop chk now wall f cur ds' s2
+  load_loop now wall (S f) cur ds (mkrd (OP_EXPIRE_MS :: u64_le e ++ t :: rest) rv) =
+    match load_kv now ds cur t (if wall <? e then Some (e - wall) else Some 0) (mkrd rest rv) with
+    | SOk _ s2 ds' => load_loop now wall f cur ds' s2
     | SErr s2 ds' => (LErr, ds', s2)
     | SPanic s2 ds' => (LPanic, ds', s2)
     end.
@@ -1106,13 +1203,13 @@ Lemma write_key_expired now ws ke : expired now (snd ke) = true -> write_key now
 Proof. destruct ke as [k e]. cbn [snd]. intros H. unfold write_key. now rewrite H. Qed.
 
 (** one live key: one iteration of the loop *)
-Lemma load_loop_key chk now now' ws wl f cur ds d k e r rv :
+Lemma load_loop_key now now' ws wl f cur ds d k e r rv :
   0 <= ws ->
   get_dbi ds cur = Some d -> fresh d k ->
   expired now e = false -> entry_ok now ws wl (k, e) = true ->
   exists rv',
-    load_loop chk now' wl (S f) cur ds (mkrd (write_key now ws (k, e) ++ r) rv)
-    = load_loop chk now' wl f cur
+    load_loop now' wl (S f) cur ds (mkrd (write_key now ws (k, e) ++ r) rv)
+    = load_loop now' wl f cur
         (set_dbi ds cur {| d_data := aged_pair now now' ws wl (k, e) :: d_data d;
                            d_index := idx_of now now' ws wl (k, e) ++ d_index d |}) (mkrd r rv')
     /\ write_key now ws (k, e) <> [].
@@ -1123,19 +1220,22 @@ Proof.
   assert (Hget : get_entry d k = None) by (apply alookup_notin; apply Hfr).
   unfold write_key. rewrite Hlive. unfold aged_pair, idx_of, aged_entry. cbn [fst snd].
   destruct (e_exp e) as [t|] eqn:Et.
-  - apply andb_prop in Hexp. destruct Hexp as [H64 Hdown]. apply Z.ltb_lt in H64. apply Z.ltb_lt in Hdown.
+  - apply Z.ltb_lt in Hexp.
     assert (Hnow : now < t) by (unfold expired in Hlive; rewrite Et in Hlive; apply Z.leb_gt in Hlive; exact Hlive).
-    assert (Hmod : (ws + (t - now) mod two64) mod two64 = ws + (t - now)).
-    { rewrite (Z.mod_small (t - now)) by lia. apply Z.mod_small. lia. }
-    rewrite Hmod.
-    destruct (load_kv_value chk now' ds cur d k (e_val e) (Some (ws + (t - now) - wl)) r rv Hd Hget Hk Hv)
+    assert (Hexpiry : expiry_of now ws t = ws + (t - now)).
+    { unfold expiry_of, u64_max, two64 in *. lia. }
+    rewrite Hexpiry.
+    set (ttl := if wl <? ws + (t - now) then Some (ws + (t - now) - wl) else Some 0).
+    destruct (load_kv_value now' ds cur d k (e_val e) ttl r rv Hd Hget Hk Hv)
       as (ty & p & rv' & Hw & Hty & E).
     rewrite Hw. cbn [app]. rewrite <- app_assoc. cbn [app].
-    rewrite load_loop_expire by lia.
-    replace (wl <? ws + (t - now)) with true by lia.
-    rewrite E. exists rv'. split; [|discriminate].
-    rewrite (ins_key_fresh d k _ _ Hfr). unfold deadline, shift. cbn [app]. reflexivity.
-  - destruct (load_kv_value chk now' ds cur d k (e_val e) None r rv Hd Hget Hk Hv)
+    rewrite load_loop_expire by (unfold two64 in *; lia).
+    fold ttl. rewrite E. exists rv'. split; [|discriminate].
+    rewrite (ins_key_fresh d k _ _ Hfr). unfold deadline, shift, ttl. cbn [app].
+    destruct (wl <? ws + (t - now)) eqn:Ew.
+    + apply Z.ltb_lt in Ew. rewrite Z.max_r by lia. reflexivity.
+    + apply Z.ltb_ge in Ew. rewrite Z.max_l by lia. reflexivity.
+  - destruct (load_kv_value now' ds cur d k (e_val e) None r rv Hd Hget Hk Hv)
       as (ty & p & rv' & Hw & Hty & E).
     rewrite Hw. cbn [app].
     rewrite load_loop_plain by exact Hty.
@@ -1158,15 +1258,15 @@ Qed.
 Lemma get_dbi_bound ds i d : get_dbi ds i = Some d -> 0 <= i < ndb.
 Proof. unfold get_dbi. destruct ((i <? 0) || (ndb <=? i)) eqn:E; [discriminate|]. intros _. lia. Qed.
 
-Lemma load_loop_keys chk now now' ws wl cur l : forall F ds d r rv,
+Lemma load_loop_keys now now' ws wl cur l : forall F ds d r rv,
   0 <= ws ->
   get_dbi ds cur = Some d ->
   NoDup (map fst l) -> (forall k, In k (map fst l) -> fresh d k) ->
   forallb (entry_ok now ws wl) l = true ->
   (length (flat_map (write_key now ws) l ++ r) < F)%nat ->
   exists F' rv', (length r < F')%nat /\
-    load_loop chk now' wl F cur ds (mkrd (flat_map (write_key now ws) l ++ r) rv)
-    = load_loop chk now' wl F' cur (set_dbi ds cur (add_keys now now' ws wl d l)) (mkrd r rv').
+    load_loop now' wl F cur ds (mkrd (flat_map (write_key now ws) l ++ r) rv)
+    = load_loop now' wl F' cur (set_dbi ds cur (add_keys now now' ws wl d l)) (mkrd r rv').
 Proof.
   induction l as [|[k e] l IH]; intros F ds d r rv Hws Hd Hnd Hfr Hok HF.
   - exists F, rv. split; [exact HF|]. cbn [flat_map app]. unfold add_keys, live. cbn [filter map flat_map rev app].
@@ -1182,7 +1282,7 @@ Proof.
       exists F', rv'. split; [exact HF'|]. rewrite E. unfold add_keys, live. cbn [filter snd]. rewrite Ex. reflexivity.
     + destruct F as [|f]; [cbn [length] in HF; lia|].
       assert (Hfk : fresh d k) by (apply Hfr; cbn [map fst In]; now left).
-      destruct (load_loop_key chk now now' ws wl f cur ds d k e (flat_map (write_key now ws) l ++ r) rv Hws Hd Hfk Ex Hke)
+      destruct (load_loop_key now now' ws wl f cur ds d k e (flat_map (write_key now ws) l ++ r) rv Hws Hd Hfk Ex Hke)
         as (rv1 & E1 & Hne).
       rewrite E1.
       set (d1 := {| d_data := aged_pair now now' ws wl (k, e) :: d_data d;
@@ -1207,19 +1307,19 @@ Lemma add_keys_empty now now' ws wl d :
   add_keys now now' ws wl empty_db (d_data d) = aged_db now now' ws wl d.
 Proof. unfold add_keys, aged_db, live_keys, live, empty_db. cbn [d_data d_index]. now rewrite !app_nil_r. Qed.
 
-Lemma load_loop_selectdb chk now wall f cur ds n r rv :
+Lemma load_loop_selectdb now wall f cur ds n r rv :
   0 <= n < two32 ->
-  load_loop chk now wall (S f) cur ds (mkrd (OP_SELECTDB :: write_length n ++ r) rv)
-  = load_loop chk now wall f n ds (mkrd r rv).
+  load_loop now wall (S f) cur ds (mkrd (OP_SELECTDB :: write_length n ++ r) rv)
+  = load_loop now wall f n ds (mkrd r rv).
 Proof.
   intros Hn. rewrite load_loop_eq, read_byte_cons.
   change (OP_SELECTDB =? OP_EOF) with false. change (OP_SELECTDB =? OP_SELECTDB) with true. cbv iota.
   now rewrite read_length_write.
 Qed.
-Lemma load_loop_resizedb chk now wall f cur ds n m r rv :
+Lemma load_loop_resizedb now wall f cur ds n m r rv :
   0 <= n < two32 -> 0 <= m < two32 ->
-  load_loop chk now wall (S f) cur ds (mkrd (OP_RESIZEDB :: write_length n ++ write_length m ++ r) rv)
-  = load_loop chk now wall f cur ds (mkrd r rv).
+  load_loop now wall (S f) cur ds (mkrd (OP_RESIZEDB :: write_length n ++ write_length m ++ r) rv)
+  = load_loop now wall f cur ds (mkrd r rv).
 Proof.
   intros Hn Hm. rewrite load_loop_eq, read_byte_cons.
   change (OP_RESIZEDB =? OP_EOF) with false. change (OP_RESIZEDB =? OP_SELECTDB) with false.
@@ -1227,25 +1327,25 @@ Proof.
   rewrite (bind_ok _ _ _ n (mkrd (write_length m ++ r) rv)) by (apply read_length_write; exact Hn).
   now rewrite read_length_write.
 Qed.
-Lemma load_loop_aux chk now wall f cur ds k v r rv :
+Lemma load_loop_aux now wall f cur ds k v r rv :
   len k < two32 -> len v < two32 ->
-  exists rv', load_loop chk now wall (S f) cur ds (mkrd (write_aux k v ++ r) rv)
-            = load_loop chk now wall f cur ds (mkrd r rv').
+  exists rv', load_loop now wall (S f) cur ds (mkrd (write_aux k v ++ r) rv)
+            = load_loop now wall f cur ds (mkrd r rv').
 Proof.
   intros Hk Hv. unfold write_aux. cbn [app]. rewrite load_loop_eq, read_byte_cons.
   change (OP_AUX =? OP_EOF) with false. change (OP_AUX =? OP_SELECTDB) with false.
   change (OP_AUX =? OP_RESIZEDB) with false. change (OP_AUX =? OP_AUX) with true. cbv iota.
   rewrite <- app_assoc.
-  rewrite (bind_ok _ _ _ k (mkrd (write_string v ++ r) (Z.max rv (len k)))) by (apply read_string_write; exact Hk).
+  rewrite (bind_ok _ _ _ k (mkrd (write_string v ++ r) (rs_resv rv k))) by (apply read_string_write; exact Hk).
   rewrite (read_string_write v r _ Hv). eexists. reflexivity.
 Qed.
 
-Lemma load_loop_db chk now now' ws wl i d : forall F cur ds r rv,
+Lemma load_loop_db now now' ws wl i d : forall F cur ds r rv,
   0 <= ws -> get_dbi ds i = Some empty_db -> db_ok now ws wl d = true ->
   (length (write_db now ws i d ++ r) < F)%nat ->
   exists F' cur' rv', (length r < F')%nat /\
-    load_loop chk now' wl F cur ds (mkrd (write_db now ws i d ++ r) rv)
-    = load_loop chk now' wl F' cur' (set_dbi ds i (aged_db now now' ws wl d)) (mkrd r rv').
+    load_loop now' wl F cur ds (mkrd (write_db now ws i d ++ r) rv)
+    = load_loop now' wl F' cur' (set_dbi ds i (aged_db now now' ws wl d)) (mkrd r rv').
 Proof.
   intros F cur ds r rv Hws Hd Hok HF.
   pose proof (get_dbi_bound _ _ _ Hd) as Hi. unfold ndb in Hi.
@@ -1264,7 +1364,7 @@ Proof.
       remember (length (write_length i)) as x. cbn [length] in HF. lia. }
     rewrite load_loop_selectdb by (unfold two32; lia).
     rewrite load_loop_resizedb by lia.
-    destruct (load_loop_keys chk now now' ws wl i (d_data d) f ds empty_db r rv Hws Hd Hnd) as (F' & rv' & HF' & E).
+    destruct (load_loop_keys now now' ws wl i (d_data d) f ds empty_db r rv Hws Hd Hnd) as (F' & rv' & HF' & E).
     + intros k _. unfold fresh, empty_db. cbn [d_data d_index map]. split; intros [].
     + exact Hall.
     + cbn [length] in HF. rewrite !app_length in HF. cbn [length] in HF. rewrite !app_length in HF.
@@ -1280,12 +1380,12 @@ Proof. induction p; cbn; auto. Qed.
 Lemma set_nth_app_mid {A} (p : list A) x y q : set_nth (p ++ x :: q) (length p) y = p ++ y :: q.
 Proof. induction p; cbn; auto. now f_equal. Qed.
 
-Lemma load_loop_dbs chk now now' ws wl l : forall pre F cur r rv,
+Lemma load_loop_dbs now now' ws wl l : forall pre F cur r rv,
   0 <= ws -> (length pre + length l = 16)%nat -> forallb (db_ok now ws wl) l = true ->
   (length (write_dbs now ws (Z.of_nat (length pre)) l ++ r) < F)%nat ->
   exists F' cur' rv', (length r < F')%nat /\
-    load_loop chk now' wl F cur (pre ++ repeat empty_db (length l)) (mkrd (write_dbs now ws (Z.of_nat (length pre)) l ++ r) rv)
-    = load_loop chk now' wl F' cur' (pre ++ map (aged_db now now' ws wl) l) (mkrd r rv').
+    load_loop now' wl F cur (pre ++ repeat empty_db (length l)) (mkrd (write_dbs now ws (Z.of_nat (length pre)) l ++ r) rv)
+    = load_loop now' wl F' cur' (pre ++ map (aged_db now now' ws wl) l) (mkrd r rv').
 Proof.
   induction l as [|d l IH]; intros pre F cur r rv Hws Hlen Hok HF.
   - exists F, cur, rv. split; [exact HF|]. reflexivity.
@@ -1294,7 +1394,7 @@ Proof.
     assert (Hget : get_dbi (pre ++ empty_db :: repeat empty_db (length l)) (Z.of_nat (length pre)) = Some empty_db).
     { unfold get_dbi, ndb. replace ((Z.of_nat (length pre) <? 0) || (16 <=? Z.of_nat (length pre))) with false by lia.
       rewrite Nat2Z.id. apply nth_error_app_mid. }
-    destruct (load_loop_db chk now now' ws wl (Z.of_nat (length pre)) d F cur _ (write_dbs now ws (Z.of_nat (length pre) + 1) l ++ r) rv Hws Hget Hd HF)
+    destruct (load_loop_db now now' ws wl (Z.of_nat (length pre)) d F cur _ (write_dbs now ws (Z.of_nat (length pre) + 1) l ++ r) rv Hws Hget Hd HF)
       as (F1 & cur1 & rv1 & HF1 & E1).
     rewrite E1. unfold set_dbi. rewrite Nat2Z.id, set_nth_app_mid.
     replace (pre ++ aged_db now now' ws wl d :: repeat empty_db (length l))
@@ -1323,10 +1423,10 @@ Proof. apply Z.mod_pos_bound. reflexivity. Qed.
 Lemma empty_dbs_repeat : empty_dbs = [] ++ repeat empty_db 16.
 Proof. reflexivity. Qed.
 
-Theorem roundtrip chk ver ctime now now' ws wl ds :
+Theorem roundtrip ver ctime now now' ws wl ds :
   0 <= ws -> len ver < two32 -> rt_guard now ws wl ds = true ->
-  load_status (load chk now' wl (save ver ctime now ws ds)) = LOk /\
-  load_dbs (load chk now' wl (save ver ctime now ws ds)) = map (aged_db now now' ws wl) ds.
+  load_status (load now' wl (save ver ctime now ws ds)) = LOk /\
+  load_dbs (load now' wl (save ver ctime now ws ds)) = map (aged_db now now' ws wl) ds.
 Proof.
   intros Hws Hver Hg. unfold rt_guard in Hg. apply andb_prop in Hg. destruct Hg as [Hlen Hok].
   apply Nat.eqb_eq in Hlen.
@@ -1342,16 +1442,16 @@ Proof.
   rewrite read_header_ok.
   rewrite !app_length in HF.
   destruct F as [|[|f]]; [lia | change (length magic) with 5%nat in HF; lia |].
-  destruct (load_loop_aux chk now' wl (S f) 0 empty_dbs (bs "redis-ver") ver
+  destruct (load_loop_aux now' wl (S f) 0 empty_dbs (bs "redis-ver") ver
               (write_aux (bs "ctime") (print_nat ctime) ++ write_dbs now ws 0 ds ++
                OP_EOF :: u64_le (byte_sum (save_body ver ctime now ws ds) mod two64)) 0) as [rv1 E1];
     [reflexivity | exact Hver |].
   rewrite E1.
-  destruct (load_loop_aux chk now' wl f 0 empty_dbs (bs "ctime") (print_nat ctime)
+  destruct (load_loop_aux now' wl f 0 empty_dbs (bs "ctime") (print_nat ctime)
               (write_dbs now ws 0 ds ++ OP_EOF :: u64_le (byte_sum (save_body ver ctime now ws ds) mod two64)) rv1) as [rv2 E2];
     [reflexivity | pose proof (len_print_nat ctime); unfold two32; lia |].
   rewrite E2.
-  destruct (load_loop_dbs chk now now' ws wl ds [] f 0
+  destruct (load_loop_dbs now now' ws wl ds [] f 0
               (OP_EOF :: u64_le (byte_sum (save_body ver ctime now ws ds) mod two64)) rv2 Hws) as (F' & cur' & rv' & HF' & E3).
   - cbn [length]. lia.
   - exact Hok.
@@ -1370,25 +1470,38 @@ Proof.
     split; reflexivity.
 Qed.
 
-(** deadlines: the drift of a reloaded deadline is the difference of the two clocks' advances *)
-Lemma shift_drift now now' ws wl t : shift now now' ws wl t - t = (now' - now) - (wl - ws).
+(** deadlines: the reloaded deadline is the saved one moved by the difference of the two clocks'
+    advances, but never before the load instant *)
+Lemma shift_max now now' ws wl t :
+  shift now now' ws wl t = Z.max now' (t + ((now' - now) - (wl - ws))).
 Proof. unfold shift. lia. Qed.
-Lemma shift_same_speed now now' ws wl t : now' - now = wl - ws -> shift now now' ws wl t = t.
+Lemma shift_drift now now' ws wl t : wl <= ws + (t - now) ->
+  shift now now' ws wl t - t = (now' - now) - (wl - ws).
 Proof. unfold shift. lia. Qed.
+Lemma shift_same_speed now now' ws wl t : now' - now = wl - ws -> now' <= t -> shift now now' ws wl t = t.
+Proof. unfold shift. lia. Qed.
+(** a deadline that passed while the server was down: the reloaded entry is expired at once *)
+Lemma aged_expired_iff now now' ws wl e t : e_exp e = Some t ->
+  expired now' (aged_entry now now' ws wl e) = (ws + (t - now) <=? wl).
+Proof.
+  intros H. unfold expired, aged_entry. cbn [e_exp]. rewrite H. unfold shift.
+  destruct (ws + (t - now) <=? wl) eqn:E; [apply Z.leb_le in E; apply Z.leb_le | apply Z.leb_gt in E; apply Z.leb_gt]; lia.
+Qed.
 
 (** ------------------------------------------------------------------ *)
-(** * C10 (3): the loader never panics without overflow checks *)
+(** * C10 (3): the loader never takes the Panic outcome (either profile: the only checked
+      arithmetic on file data, the stream field count, is checked explicitly since bcfe7be) *)
 Definition is_panic {A} (r : step A) : bool := match r with SPanic _ _ => true | _ => false end.
 
-Lemma load_stream_no_panic fuel : forall ds i k idx remaining s,
-  is_panic (load_stream false fuel ds i k idx remaining s) = false.
+Lemma load_stream_no_panic fuel : forall ds i k idx remaining pre s,
+  is_panic (load_stream fuel ds i k idx remaining pre s) = false.
 Proof.
-  induction fuel as [|f IH]; intros ds i k idx remaining s; rewrite load_stream_eq; [reflexivity|].
+  induction fuel as [|f IH]; intros ds i k idx remaining pre s; rewrite load_stream_eq; [reflexivity|].
   destruct (remaining <=? idx); [reflexivity|].
-  destruct (remaining <=? idx + 2); [reflexivity|].
-  destruct (read_string s) as [[id_str|] s1]; [|reflexivity].
+  destruct (remaining <? idx + 2); [reflexivity|].
+  destruct (match pre with Some id => (Some id, s) | None => read_string s end) as [[id_str|] s1]; [|reflexivity].
   destruct (read_string s1) as [[fc_str|] s2]; [|reflexivity].
-  cbv zeta. cbn [andb].
+  cbv zeta.
   match goal with |- context [if ?c then SOk tt s2 ds else _] => destruct c; [reflexivity|] end.
   match goal with |- context [read_pairs ?a ?b ?c ?d] => destruct (read_pairs a b c d) as [[fv|] s3]; [|reflexivity] end.
   apply IH.
@@ -1405,7 +1518,7 @@ Qed.
 Lemma lift_api_no_panic {A} (a : A) s ds r : is_panic (lift_api a s ds r) = false.
 Proof. destruct r; reflexivity. Qed.
 
-Lemma load_kv_no_panic now ds i vt ttl s : is_panic (load_kv false now ds i vt ttl s) = false.
+Lemma load_kv_no_panic now ds i vt ttl s : is_panic (load_kv now ds i vt ttl s) = false.
 Proof.
   unfold load_kv.
   destruct (vt =? T_STRING).
@@ -1421,11 +1534,15 @@ Proof.
     destruct (read_length s1) as [[n|] s2]; [|reflexivity].
     destruct (1 <=? n); [|apply lift_api_no_panic].
     destruct (read_string s2) as [[first|] s3]; [|reflexivity].
-    destruct (beq first marker).
-    - pose proof (load_stream_no_panic (S (length (r_in s))) ds i k 0 (n - 1) s3) as H.
-      destruct (load_stream false (S (length (r_in s))) ds i k 0 (n - 1) s3); [apply lift_api_no_panic | reflexivity | discriminate].
+    cbv zeta.
+    match goal with |- context [match ?look with pair _ _ => _ end] =>
+      destruct look as [[[[is_stream n'] pre]|] s4]; [|reflexivity] end.
+    destruct is_stream.
+    - destruct (api_set_value now ds i k (VStream (mkstream [] (0, 0) 0)) None) as [ds0|]; [|reflexivity].
+      pose proof (load_stream_no_panic (S (length (r_in s))) ds0 i k 0 (n' - 1) pre s4) as H.
+      destruct (load_stream (S (length (r_in s))) ds0 i k 0 (n' - 1) pre s4); [apply lift_api_no_panic | reflexivity | discriminate].
     - destruct (api_rpush ds i k [first]); [|reflexivity].
-      destruct (read_strings_partial (S (length (r_in s))) (n - 1) [] s3) as [[els ok] s4].
+      destruct (read_strings_partial (S (length (r_in s))) (n' - 1) [] s4) as [[els ok] s5].
       match goal with |- context [match ?x with Some ds2 => _ | None => _ end] => destruct x; [|reflexivity] end.
       destruct ok; [apply lift_api_no_panic | reflexivity]. }
   destruct (vt =? T_SET).
@@ -1442,7 +1559,7 @@ Proof.
 Qed.
 
 Lemma load_loop_no_panic now wall fuel : forall cur ds s,
-  fst (fst (load_loop false now wall fuel cur ds s)) <> LPanic.
+  fst (fst (load_loop now wall fuel cur ds s)) <> LPanic.
 Proof.
   induction fuel as [|f IH]; intros cur ds s; [cbn; discriminate|].
   rewrite load_loop_eq.
@@ -1465,153 +1582,123 @@ Proof.
   apply load_kv_no_panic.
 Qed.
 
-Theorem load_no_panic_release now wall ds0 b : load_status (load_from false now wall ds0 b) <> LPanic.
+Theorem load_no_panic now wall ds0 b : load_status (load_from now wall ds0 b) <> LPanic.
 Proof.
   unfold load_status, load_from. destruct (read_header _) as [[u|] s1]; [apply load_loop_no_panic | cbn; discriminate].
 Qed.
 
 (** ------------------------------------------------------------------ *)
-(** * C10 (3): what the loader's allocation is bounded by - the largest length the 32-bit
-      form can declare, not the file length *)
-Definition bytes_ok (l : bytes) : Prop := Forall (fun c => 0 <= c < 256) l.
-Definition rd_ok (s : rd) : Prop := bytes_ok (r_in s) /\ r_resv s < two32.
-Definition res_ok {A} (r : rres A) : Prop := rd_ok (snd r).
+(** * C10 (3): the allocation bound of the repaired read_string: with a file of [L] bytes no
+      request of the loader exceeds [64 KiB + 2 L + 32] - whatever lengths the file declares *)
+Definition abound (L : Z) : Z := 65536 + 2 * L + 32.
+Definition rd_ok (L : Z) (s : rd) : Prop := len (r_in s) <= L /\ r_resv s <= abound L.
+Definition res_ok {A} (L : Z) (r : rres A) : Prop := rd_ok L (snd r).
 
-Lemma take_ok l : forall n a b, take l n = Some (a, b) -> bytes_ok l -> bytes_ok a /\ bytes_ok b.
+Lemma take_len l : forall n a b, take l n = Some (a, b) -> len b <= len l /\ (0 <= n -> n <= len l).
 Proof.
-  induction l as [|c l IH]; intros n a b; cbn [take]; destruct (n <=? 0).
-  - intros H _. inversion H. split; constructor.
+  induction l as [|c l IH]; intros n a b; cbn [take]; destruct (n <=? 0) eqn:E.
+  - intros H. inversion H; subst. apply Z.leb_le in E. split; [lia | intros; unfold len; cbn [length]; lia].
   - discriminate.
-  - intros H Hl. inversion H; subst. split; [constructor | exact Hl].
-  - destruct (take l (n - 1)) as [[a' b']|] eqn:E; [|discriminate]. intros H Hl. inversion H; subst.
-    apply Forall_cons_iff in Hl. destruct Hl as [Hc Hl]. destruct (IH _ _ _ E Hl) as [Ha Hb].
-    split; [constructor; assumption | exact Hb].
+  - intros H. inversion H; subst. apply Z.leb_le in E. pose proof (len_nonneg (c :: l)). split; lia.
+  - destruct (take l (n - 1)) as [[a' b']|] eqn:E2; [|discriminate]. intros H. inversion H; subst.
+    destruct (IH _ _ _ E2) as [H1 H2]. rewrite len_cons. split; lia.
 Qed.
-Lemma read_exact_ok n s : rd_ok s -> res_ok (read_exact n s) /\
-  (forall a s', read_exact n s = (Some a, s') -> bytes_ok a).
+Lemma read_exact_ok L n s : rd_ok L s -> res_ok L (read_exact n s).
 Proof.
-  intros [Hb Hr]. unfold read_exact, res_ok. destruct (take (r_in s) n) as [[a b]|] eqn:E.
-  - destruct (take_ok _ _ _ _ E Hb) as [Ha Hb']. cbn [snd]. split; [split; assumption|].
-    intros a0 s' H. inversion H; subst. exact Ha.
-  - cbn [snd]. split; [split; assumption | discriminate].
+  intros [Hb Hr]. unfold read_exact, res_ok. destruct (take (r_in s) n) as [[a b]|] eqn:E; cbn [snd].
+  - destruct (take_len _ _ _ _ E) as [H1 _]. split; cbn [r_in r_resv]; lia.
+  - split; assumption.
 Qed.
-Lemma read_byte_ok s : rd_ok s -> res_ok (read_byte s) /\
-  (forall c s', read_byte s = (Some c, s') -> 0 <= c < 256).
+Lemma read_byte_ok L s : rd_ok L s -> res_ok L (read_byte s).
 Proof.
   intros [Hb Hr]. unfold read_byte, res_ok. destruct (r_in s) as [|c r] eqn:E; cbn [snd].
-  - split; [split; [rewrite E; constructor | exact Hr] | discriminate].
-  - apply Forall_cons_iff in Hb. destruct Hb as [Hc Hb]. split; [split; assumption|].
-    intros c0 s' H. inversion H; subst. exact Hc.
+  - split; [rewrite E; exact Hb | exact Hr].
+  - rewrite len_cons in Hb. split; cbn [r_in r_resv]; lia.
 Qed.
-Lemma le_val_bound l : bytes_ok l -> 0 <= le_val l < 256 ^ Z.of_nat (length l).
+Lemma read_u32_be_ok' L s : rd_ok L s -> res_ok L (read_u32_be s).
 Proof.
-  induction l as [|c l IH]; intros H; cbn [le_val length].
-  - change (256 ^ Z.of_nat 0) with 1. lia.
-  - apply Forall_cons_iff in H. destruct H as [Hc Hl]. specialize (IH Hl).
-    rewrite Nat2Z.inj_succ, Z.pow_succ_r by lia. lia.
+  intros Hs. unfold read_u32_be, bind. pose proof (read_exact_ok L 4 s Hs) as H1.
+  destruct (read_exact 4 s) as [[a|] s1]; exact H1.
 Qed.
-Lemma take_length l : forall n a b, 0 <= n -> take l n = Some (a, b) -> Z.of_nat (length a) = n.
+Lemma read_length_ok L s : rd_ok L s -> res_ok L (read_length s).
 Proof.
-  induction l as [|c l IH]; intros n a b Hn; cbn [take]; destruct (n <=? 0) eqn:E.
-  - intros H. inversion H. cbn [length]. lia.
-  - discriminate.
-  - intros H. inversion H. cbn [length]. lia.
-  - destruct (take l (n - 1)) as [[a' b']|] eqn:E2; [|discriminate]. intros H. inversion H; subst.
-    cbn [length]. apply IH in E2; lia.
+  intros Hs. unfold read_length, bind. pose proof (read_byte_ok L s Hs) as H1.
+  destruct (read_byte s) as [[first|] s1]; [|exact H1]. unfold res_ok in H1. cbn [snd] in H1.
+  destruct (first / 64 =? 0); [exact H1|].
+  destruct (first / 64 =? 1).
+  { pose proof (read_byte_ok L s1 H1) as G1. destruct (read_byte s1) as [[second|] s2]; exact G1. }
+  destruct (first / 64 =? 2); [apply read_u32_be_ok'; exact H1 | exact H1].
 Qed.
-
-Lemma read_u32_be_ok' s : rd_ok s -> res_ok (read_u32_be s) /\
-  (forall x s', read_u32_be s = (Some x, s') -> 0 <= x < two32).
+Lemma read_string_ok L s : 0 <= L -> rd_ok L s -> res_ok L (read_string s).
 Proof.
-  intros Hs. unfold read_u32_be, bind. destruct (read_exact_ok 4 s Hs) as [H1 H2].
-  destruct (read_exact 4 s) as [[a|] s1] eqn:E; [|split; [exact H1 | discriminate]].
-  unfold ret. split; [exact H1|]. intros x s' H. inversion H; subst.
-  specialize (H2 _ _ eq_refl).
-  assert (Hlen : Z.of_nat (length a) = 4).
-  { unfold read_exact in E. destruct (take (r_in s) 4) as [[a' b']|] eqn:Et; [|discriminate].
-    inversion E; subst. eapply take_length; [|exact Et]. lia. }
-  unfold be_val. assert (Hrev : bytes_ok (rev a)) by (apply Forall_rev; exact H2).
-  pose proof (le_val_bound _ Hrev) as Hb. rewrite rev_length, Hlen in Hb. exact Hb.
+  intros HL Hs. unfold read_string, bind. pose proof (read_length_ok L s Hs) as H1.
+  destruct (read_length s) as [[n|] s1]; [|exact H1].
+  unfold res_ok in H1. cbn [snd] in H1. destruct H1 as [Hb Hr].
+  unfold reserve. cbn [r_in r_resv]. unfold res_ok.
+  pose proof (len_nonneg (r_in s1)) as H0.
+  destruct (take (r_in s1) n) as [[a b]|] eqn:E; cbn [snd]; split; cbn [r_in r_resv]; unfold abound in *.
+  - destruct (take_len _ _ _ _ E) as [G1 _]. lia.
+  - destruct (take_len _ _ _ _ E) as [G1 G2]. destruct (Z.le_gt_cases 0 n); [specialize (G2 H)|]; lia.
+  - rewrite len_nil. lia.
+  - lia.
 Qed.
-
-Lemma read_length_ok s : rd_ok s -> res_ok (read_length s) /\
-  (forall n s', read_length s = (Some n, s') -> 0 <= n < two32).
+Lemma read_u64_le_ok' L s : rd_ok L s -> res_ok L (read_u64_le s).
 Proof.
-  intros Hs. unfold read_length, bind. destruct (read_byte_ok s Hs) as [H1 H2].
-  destruct (read_byte s) as [[first|] s1] eqn:E; [|split; [exact H1 | discriminate]].
-  specialize (H2 _ _ eq_refl). unfold res_ok in H1. cbn [snd] in H1.
-  assert (Hq : 0 <= first / 64 <= 3) by (pose proof (Z.div_mod first 64); pose proof (Z.mod_pos_bound first 64); lia).
-  destruct (first / 64 =? 0) eqn:E0.
-  { unfold ret. split; [exact H1|]. intros n s' H. inversion H; subst. unfold two32. lia. }
-  destruct (first / 64 =? 1) eqn:E1.
-  { destruct (read_byte_ok s1 H1) as [G1 G2].
-    destruct (read_byte s1) as [[second|] s2] eqn:Eb; [|split; [exact G1 | discriminate]].
-    specialize (G2 _ _ eq_refl). unfold ret. split; [exact G1|]. intros n s' H. inversion H; subst.
-    pose proof (Z.mod_pos_bound first 64). unfold two32. lia. }
-  destruct (first / 64 =? 2) eqn:E2.
-  { apply read_u32_be_ok'. exact H1. }
-  unfold fail. split; [exact H1 | discriminate].
-Qed.
-
-Lemma read_string_ok s : rd_ok s -> res_ok (read_string s).
-Proof.
-  intros Hs. unfold read_string, bind. destruct (read_length_ok s Hs) as [H1 H2].
-  destruct (read_length s) as [[n|] s1] eqn:E; [|exact H1].
-  specialize (H2 _ _ eq_refl). unfold res_ok in H1. cbn [snd] in H1. destruct H1 as [Hb Hr].
-  unfold reserve. cbn [r_in r_resv].
-  apply read_exact_ok. split; cbn [r_in r_resv]; [exact Hb | lia].
-Qed.
-Lemma read_u64_le_ok' s : rd_ok s -> res_ok (read_u64_le s).
-Proof.
-  intros Hs. unfold read_u64_le, bind. destruct (read_exact_ok 8 s Hs) as [H1 _].
+  intros Hs. unfold read_u64_le, bind. pose proof (read_exact_ok L 8 s Hs) as H1.
   destruct (read_exact 8 s) as [[a|] s1]; exact H1.
 Qed.
-Lemma read_u32_le_ok' s : rd_ok s -> res_ok (read_u32_le s).
+Lemma read_u32_le_ok' L s : rd_ok L s -> res_ok L (read_u32_le s).
 Proof.
-  intros Hs. unfold read_u32_le, bind. destruct (read_exact_ok 4 s Hs) as [H1 _].
+  intros Hs. unfold read_u32_le, bind. pose proof (read_exact_ok L 4 s Hs) as H1.
   destruct (read_exact 4 s) as [[a|] s1]; exact H1.
 Qed.
 
-Ltac step_rs s H := let G := fresh "G" in
-  pose proof (read_string_ok s H) as G; unfold res_ok in G; destruct (read_string s) as [[?x|] ?s]; cbn [snd] in G.
+Ltac step_rs L HL s H := let G := fresh "G" in
+  pose proof (read_string_ok L s HL H) as G; unfold res_ok in G; destruct (read_string s) as [[?x|] ?s]; cbn [snd] in G.
 
-Lemma read_strings_ok' fuel : forall n acc s, rd_ok s -> res_ok (read_strings fuel n acc s).
+Section Bound.
+Variable L : Z.
+Hypothesis HL : 0 <= L.
+
+Lemma read_strings_ok' fuel : forall n acc s, rd_ok L s -> res_ok L (read_strings fuel n acc s).
 Proof.
   induction fuel as [|f IH]; intros n acc s Hs; rewrite read_strings_eq; destruct (n <=? 0); try exact Hs.
-  unfold bind. step_rs s Hs; [apply IH; exact G | exact G].
+  unfold bind. step_rs L HL s Hs; [apply IH; exact G | exact G].
 Qed.
-Lemma read_pairs_ok' fuel : forall n acc s, rd_ok s -> res_ok (read_pairs fuel n acc s).
+Lemma read_pairs_ok' fuel : forall n acc s, rd_ok L s -> res_ok L (read_pairs fuel n acc s).
 Proof.
   induction fuel as [|f IH]; intros n acc s Hs; rewrite read_pairs_eq; destruct (n <=? 0); try exact Hs.
-  unfold bind. step_rs s Hs; [|exact G]. step_rs s0 G; [apply IH; exact G0 | exact G0].
+  unfold bind. step_rs L HL s Hs; [|exact G]. step_rs L HL s0 G; [apply IH; exact G0 | exact G0].
 Qed.
-Lemma read_strings_partial_ok' fuel : forall n acc s, rd_ok s -> rd_ok (snd (read_strings_partial fuel n acc s)).
+Lemma read_strings_partial_ok' fuel : forall n acc s, rd_ok L s -> rd_ok L (snd (read_strings_partial fuel n acc s)).
 Proof.
   induction fuel as [|f IH]; intros n acc s Hs; rewrite read_strings_partial_eq; destruct (n <=? 0); try exact Hs.
-  step_rs s Hs; [apply IH; exact G | exact G].
+  step_rs L HL s Hs; [apply IH; exact G | exact G].
 Qed.
 
 Definition step_ok {A} (r : step A) : Prop :=
-  match r with SOk _ s _ => rd_ok s | SErr s _ => rd_ok s | SPanic s _ => rd_ok s end.
-Lemma lift_api_ok {A} (a : A) s ds r : rd_ok s -> step_ok (lift_api a s ds r).
+  match r with SOk _ s _ => rd_ok L s | SErr s _ => rd_ok L s | SPanic s _ => rd_ok L s end.
+Lemma lift_api_ok {A} (a : A) s ds r : rd_ok L s -> step_ok (lift_api a s ds r).
 Proof. intros H. destruct r; exact H. Qed.
 
-Lemma load_zitems_ok fuel : forall n ds i k s, rd_ok s -> step_ok (load_zitems fuel n ds i k s).
+Lemma load_zitems_ok fuel : forall n ds i k s, rd_ok L s -> step_ok (load_zitems fuel n ds i k s).
 Proof.
   induction fuel as [|f IH]; intros n ds i k s Hs; rewrite load_zitems_eq; destruct (n <=? 0); try exact Hs.
-  step_rs s Hs; [|exact G].
-  pose proof (read_u64_le_ok' s0 G) as G2. unfold res_ok in G2.
+  step_rs L HL s Hs; [|exact G].
+  pose proof (read_u64_le_ok' L s0 G) as G2. unfold res_ok in G2.
   destruct (read_u64_le s0) as [[sc|] s2]; cbn [snd] in G2; [|exact G2].
   destruct (api_zadd ds i k x sc); [apply IH; exact G2 | exact G2].
 Qed.
 
-Lemma load_stream_ok chk fuel : forall ds i k idx remaining s, rd_ok s ->
-  step_ok (load_stream chk fuel ds i k idx remaining s).
+Lemma load_stream_ok fuel : forall ds i k idx remaining pre s, rd_ok L s ->
+  step_ok (load_stream fuel ds i k idx remaining pre s).
 Proof.
-  induction fuel as [|f IH]; intros ds i k idx remaining s Hs; rewrite load_stream_eq; [exact Hs|].
-  destruct (remaining <=? idx); [exact Hs|]. destruct (remaining <=? idx + 2); [exact Hs|].
-  step_rs s Hs; [|exact G]. step_rs s0 G; [|exact G0]. cbv zeta.
-  match goal with |- context [if ?c then SPanic s1 ds else _] => destruct c; [exact G0|] end.
+  induction fuel as [|f IH]; intros ds i k idx remaining pre s Hs; rewrite load_stream_eq; [exact Hs|].
+  destruct (remaining <=? idx); [exact Hs|]. destruct (remaining <? idx + 2); [exact Hs|].
+  assert (G : rd_ok L (snd (match pre with Some id => (Some id, s) | None => read_string s end))).
+  { destruct pre; [exact Hs | apply (read_string_ok L s HL Hs)]. }
+  destruct (match pre with Some id => (Some id, s) | None => read_string s end) as [[id_str|] s0]; cbn [snd] in G; [|exact G].
+  step_rs L HL s0 G; [|exact G0]. cbv zeta.
   match goal with |- context [if ?c then SOk tt s1 ds else _] => destruct c; [exact G0|] end.
   match goal with |- context [read_pairs ?a ?b ?c ?d] =>
     pose proof (read_pairs_ok' a b c d G0) as G1; unfold res_ok in G1;
@@ -1619,43 +1706,51 @@ Proof.
   apply IH. exact G1.
 Qed.
 
-Lemma load_kv_ok chk now ds i vt ttl s : rd_ok s -> step_ok (load_kv chk now ds i vt ttl s).
+Lemma load_kv_ok now ds i vt ttl s : rd_ok L s -> step_ok (load_kv now ds i vt ttl s).
 Proof.
   intros Hs. unfold load_kv.
   destruct (vt =? T_STRING).
-  { step_rs s Hs; [|exact G]. step_rs s0 G; [apply lift_api_ok; exact G0 | exact G0]. }
+  { step_rs L HL s Hs; [|exact G]. step_rs L HL s0 G; [apply lift_api_ok; exact G0 | exact G0]. }
   destruct ((vt =? T_ZSET) || (vt =? T_ZSET2)).
-  { step_rs s Hs; [|exact G].
-    pose proof (read_length_ok s0 G) as [G1 _]. unfold res_ok in G1.
+  { step_rs L HL s Hs; [|exact G].
+    pose proof (read_length_ok L s0 G) as G1. unfold res_ok in G1.
     destruct (read_length s0) as [[n|] s2]; cbn [snd] in G1; [|exact G1].
     pose proof (load_zitems_ok (S (length (r_in s))) n ds i x s2 G1) as G2.
     destruct (load_zitems (S (length (r_in s))) n ds i x s2); cbn [step_ok] in G2;
       [apply lift_api_ok; exact G2 | exact G2 | exact G2]. }
   destruct (vt =? T_LIST).
-  { step_rs s Hs; [|exact G].
-    pose proof (read_length_ok s0 G) as [G1 _]. unfold res_ok in G1.
+  { step_rs L HL s Hs; [|exact G].
+    pose proof (read_length_ok L s0 G) as G1. unfold res_ok in G1.
     destruct (read_length s0) as [[n|] s2]; cbn [snd] in G1; [|exact G1].
     destruct (1 <=? n); [|apply lift_api_ok; exact G1].
-    step_rs s2 G1; [|exact G0].
-    destruct (beq x0 marker).
-    - pose proof (load_stream_ok chk (S (length (r_in s))) ds i x 0 (n - 1) s1 G0) as G2.
-      destruct (load_stream chk (S (length (r_in s))) ds i x 0 (n - 1) s1); cbn [step_ok] in G2;
+    step_rs L HL s2 G1; [|exact G0].
+    cbv zeta.
+    match goal with |- context [match ?look with pair _ _ => _ end] =>
+      assert (G4 : rd_ok L (snd look)) end.
+    { destruct (beq x0 marker && (2 <=? n)); [|exact G0].
+      step_rs L HL s1 G0; [|exact G2]. destruct (beq x1 marker); exact G2. }
+    match goal with |- context [match ?look with pair _ _ => _ end] =>
+      destruct look as [[[[is_stream n'] pre]|] s4]; cbn [snd] in G4; [|exact G4] end.
+    destruct is_stream.
+    - destruct (api_set_value now ds i x (VStream (mkstream [] (0, 0) 0)) None) as [ds0|]; [|exact G4].
+      pose proof (load_stream_ok (S (length (r_in s))) ds0 i x 0 (n' - 1) pre s4 G4) as G2.
+      destruct (load_stream (S (length (r_in s))) ds0 i x 0 (n' - 1) pre s4); cbn [step_ok] in G2;
         [apply lift_api_ok; exact G2 | exact G2 | exact G2].
-    - destruct (api_rpush ds i x [x0]); [|exact G0].
-      pose proof (read_strings_partial_ok' (S (length (r_in s))) (n - 1) [] s1 G0) as G2.
-      destruct (read_strings_partial (S (length (r_in s))) (n - 1) [] s1) as [[els ok] s4]. cbn [snd] in G2.
+    - destruct (api_rpush ds i x [x0]); [|exact G4].
+      pose proof (read_strings_partial_ok' (S (length (r_in s))) (n' - 1) [] s4 G4) as G2.
+      destruct (read_strings_partial (S (length (r_in s))) (n' - 1) [] s4) as [[els ok] s5]. cbn [snd] in G2.
       match goal with |- context [match ?y with Some ds2 => _ | None => _ end] => destruct y; [|exact G2] end.
       destruct ok; [apply lift_api_ok; exact G2 | exact G2]. }
   destruct (vt =? T_SET).
-  { step_rs s Hs; [|exact G].
-    pose proof (read_length_ok s0 G) as [G1 _]. unfold res_ok in G1.
+  { step_rs L HL s Hs; [|exact G].
+    pose proof (read_length_ok L s0 G) as G1. unfold res_ok in G1.
     destruct (read_length s0) as [[n|] s2]; cbn [snd] in G1; [|exact G1].
     pose proof (read_strings_ok' (S (length (r_in s))) n [] s2 G1) as G2. unfold res_ok in G2.
     destruct (read_strings (S (length (r_in s))) n [] s2) as [[ms|] s3]; cbn [snd] in G2; [|exact G2].
     destruct (api_sadd ds i x ms); [apply lift_api_ok; exact G2 | exact G2]. }
   destruct (vt =? T_HASH).
-  { step_rs s Hs; [|exact G].
-    pose proof (read_length_ok s0 G) as [G1 _]. unfold res_ok in G1.
+  { step_rs L HL s Hs; [|exact G].
+    pose proof (read_length_ok L s0 G) as G1. unfold res_ok in G1.
     destruct (read_length s0) as [[n|] s2]; cbn [snd] in G1; [|exact G1].
     pose proof (read_pairs_ok' (S (length (r_in s))) n [] s2 G1) as G2. unfold res_ok in G2.
     destruct (read_pairs (S (length (r_in s))) n [] s2) as [[fv|] s3]; cbn [snd] in G2; [|exact G2].
@@ -1663,53 +1758,160 @@ Proof.
   exact Hs.
 Qed.
 
-Lemma load_loop_ok chk now wall fuel : forall cur ds s, rd_ok s -> rd_ok (snd (load_loop chk now wall fuel cur ds s)).
+Lemma load_loop_ok now wall fuel : forall cur ds s, rd_ok L s -> rd_ok L (snd (load_loop now wall fuel cur ds s)).
 Proof.
   induction fuel as [|f IH]; intros cur ds s Hs; [exact Hs|].
   rewrite load_loop_eq.
-  destruct (read_byte_ok s Hs) as [H1 _]. unfold res_ok in H1.
+  pose proof (read_byte_ok L s Hs) as H1. unfold res_ok in H1.
   destruct (read_byte s) as [[op|] s1]; cbn [snd] in H1; [|exact H1].
   destruct (op =? OP_EOF).
-  { pose proof (read_u64_le_ok' s1 H1) as G. unfold res_ok in G. destruct (read_u64_le s1) as [[x|] s2]; exact G. }
+  { pose proof (read_u64_le_ok' L s1 H1) as G. unfold res_ok in G. destruct (read_u64_le s1) as [[x|] s2]; exact G. }
   destruct (op =? OP_SELECTDB).
-  { destruct (read_length_ok s1 H1) as [G _]. unfold res_ok in G.
+  { pose proof (read_length_ok L s1 H1) as G. unfold res_ok in G.
     destruct (read_length s1) as [[x|] s2]; cbn [snd] in G; [apply IH; exact G | exact G]. }
   destruct (op =? OP_RESIZEDB).
-  { unfold bind. destruct (read_length_ok s1 H1) as [G _]. unfold res_ok in G.
+  { unfold bind. pose proof (read_length_ok L s1 H1) as G. unfold res_ok in G.
     destruct (read_length s1) as [[x|] s2]; cbn [snd] in G; [|exact G].
-    destruct (read_length_ok s2 G) as [G2 _]. unfold res_ok in G2.
+    pose proof (read_length_ok L s2 G) as G2. unfold res_ok in G2.
     destruct (read_length s2) as [[y|] s3]; cbn [snd] in G2; [apply IH; exact G2 | exact G2]. }
   destruct (op =? OP_AUX).
-  { unfold bind. step_rs s1 H1; [|exact G]. step_rs s0 G; [apply IH; exact G0 | exact G0]. }
+  { unfold bind. step_rs L HL s1 H1; [|exact G]. step_rs L HL s0 G; [apply IH; exact G0 | exact G0]. }
   cbv zeta.
   match goal with |- context [match ?r with SOk _ _ _ => _ | SErr _ _ => _ | SPanic _ _ => _ end] =>
     assert (Hp : step_ok r); [|destruct r; cbn [step_ok] in Hp; [apply IH; exact Hp | exact Hp | exact Hp]] end.
   destruct (op =? OP_EXPIRE_MS).
-  { pose proof (read_u64_le_ok' s1 H1) as G. unfold res_ok in G.
+  { pose proof (read_u64_le_ok' L s1 H1) as G. unfold res_ok in G.
     destruct (read_u64_le s1) as [[e|] s2]; cbn [snd] in G; [|exact G]. unfold load_kv_expiry.
-    destruct (read_byte_ok s2 G) as [G2 _]. unfold res_ok in G2.
+    pose proof (read_byte_ok L s2 G) as G2. unfold res_ok in G2.
     destruct (read_byte s2) as [[vt|] s3]; cbn [snd] in G2; [apply load_kv_ok; exact G2 | exact G2]. }
   destruct (op =? OP_EXPIRE_S).
-  { pose proof (read_u32_le_ok' s1 H1) as G. unfold res_ok in G.
+  { pose proof (read_u32_le_ok' L s1 H1) as G. unfold res_ok in G.
     destruct (read_u32_le s1) as [[e|] s2]; cbn [snd] in G; [|exact G]. unfold load_kv_expiry.
-    destruct (read_byte_ok s2 G) as [G2 _]. unfold res_ok in G2.
+    pose proof (read_byte_ok L s2 G) as G2. unfold res_ok in G2.
     destruct (read_byte s2) as [[vt|] s3]; cbn [snd] in G2; [apply load_kv_ok; exact G2 | exact G2]. }
   apply load_kv_ok. exact H1.
 Qed.
+End Bound.
 
-Theorem load_resv_below_4gib chk now wall ds0 b :
-  bytes_ok b -> load_resv (load_from chk now wall ds0 b) < two32.
+Theorem load_resv_bounded now wall ds0 b :
+  load_resv (load_from now wall ds0 b) <= 65536 + 2 * len b + 32.
 Proof.
-  intros Hb. unfold load_resv, load_from.
-  assert (H0 : rd_ok {| r_in := b; r_resv := 0 |}) by (split; [exact Hb | reflexivity]).
-  assert (H1 : res_ok (read_header {| r_in := b; r_resv := 0 |})).
-  { unfold read_header, bind. destruct (read_exact_ok 5 _ H0) as [G _]. unfold res_ok in G.
+  pose proof (len_nonneg b) as HL. unfold load_resv, load_from.
+  assert (H0 : rd_ok (len b) {| r_in := b; r_resv := 0 |}) by (split; cbn [r_in r_resv]; unfold abound; lia).
+  assert (H1 : res_ok (len b) (read_header {| r_in := b; r_resv := 0 |})).
+  { unfold read_header, bind. pose proof (read_exact_ok (len b) 5 _ H0) as G. unfold res_ok in G.
     destruct (read_exact 5 _) as [[m|] s1]; cbn [snd] in G; [|exact G].
     destruct (negb (beq m magic)); [exact G|].
-    destruct (read_exact_ok 4 _ G) as [G2 _]. unfold res_ok in G2.
+    pose proof (read_exact_ok (len b) 4 _ G) as G2. unfold res_ok in G2.
     destruct (read_exact 4 s1) as [[v|] s2]; cbn [snd] in G2; [|exact G2].
     destruct (parse_unsigned 65535 v); exact G2. }
   unfold res_ok in H1. destruct (read_header _) as [[u|] s1]; cbn [snd] in H1.
-  - apply (load_loop_ok chk now wall _ 0 ds0 s1 H1).
+  - apply (load_loop_ok (len b) HL now wall _ 0 ds0 s1 H1).
   - apply H1.
+Qed.
+
+(** ------------------------------------------------------------------ *)
+(** * C10 (1): the background-save flag *)
+Definition flag_inv (s : pstate) : Prop :=
+  ps_flag s = match ps_running s with Some _ => true | None => false end.
+Lemma ps_step_inv s e : flag_inv s -> flag_inv (ps_step s e).
+Proof.
+  unfold flag_inv. intros H. destruct e as [a|a|]; cbn [ps_step].
+  - exact H.
+  - destruct (ps_flag s) eqn:E; [rewrite E; exact H | reflexivity].
+  - destruct (ps_running s) eqn:Er; [reflexivity | rewrite Er; exact H].
+Qed.
+Lemma ps_hist_inv hist : forall s, flag_inv s -> flag_inv (fold_left ps_step hist s).
+Proof. induction hist as [|e h IH]; intros s H; cbn [fold_left]; [exact H | apply IH, ps_step_inv, H]. Qed.
+(** whenever no save is running the flag is clear *)
+Lemma flag_clear_when_idle hist d :
+  let s := fold_left ps_step hist (ps_init d) in ps_running s = None -> ps_flag s = false.
+Proof.
+  intros s Hr. pose proof (ps_hist_inv hist (ps_init d) eq_refl) as H. fold s in H.
+  unfold flag_inv in H. now rewrite Hr in H.
+Qed.
+(** hence a later bgsave is accepted, and when its thread ends undisturbed the dump is exactly
+    its complete output and the flag is clear again *)
+Lemma later_bgsave_works hist d ws :
+  let s := fold_left ps_step hist (ps_init d) in
+  ps_running s = None ->
+  let a := {| a_writes := ws; a_failat := None; a_open_fails := false; a_rename_fails := false |} in
+  let s1 := ps_step s (EvBgStart a) in
+  ps_running s1 = Some a /\
+  let s2 := ps_step s1 EvBgEnd in
+  dk_dump (ps_disk s2) = Some (concat ws) /\ ps_flag s2 = false /\ ps_running s2 = None.
+Proof.
+  intros s Hr a s1. pose proof (flag_clear_when_idle hist d Hr) as Hf. fold s in Hf.
+  unfold s1. cbn [ps_step]. rewrite Hf. cbn [ps_running]. split; [reflexivity|].
+  cbn [ps_step ps_running ps_disk ps_flag]. unfold run_attempt, a. cbn [a_writes a_failat a_open_fails a_rename_fails].
+  rewrite good_save. repeat split.
+Qed.
+(** the dump stays complete over every history of foreground and background saves *)
+Lemma ps_dump_complete hist : forall d0,
+  let s := fold_left ps_step hist (ps_init d0) in
+  dk_dump (ps_disk s) = dk_dump d0 \/
+  exists a, In a (flat_map ev_attempts hist) /\ dk_dump (ps_disk s) = Some (concat (a_writes a)).
+Proof.
+  intros d0.
+  assert (G : forall h s0,
+    (forall a, ps_running s0 = Some a -> True) ->
+    let s := fold_left ps_step h s0 in
+    dk_dump (ps_disk s) = dk_dump (ps_disk s0) \/
+    exists a, (In a (flat_map ev_attempts h) \/ ps_running s0 = Some a) /\ dk_dump (ps_disk s) = Some (concat (a_writes a))).
+  { induction h as [|e h IH]; intros s0 _; cbn [fold_left flat_map].
+    - left. reflexivity.
+    - specialize (IH (ps_step s0 e) (fun _ _ => I)). cbn zeta in IH.
+      destruct e as [a|a|]; cbn [ps_step ev_attempts app] in *.
+      + destruct IH as [H|[a' [[Hin|Hrun] H]]].
+        * cbn [ps_disk] in H. destruct (run_attempt_cases (ps_disk s0) a) as [C|C].
+          -- left. congruence.
+          -- right. exists a. split; [left; now left | congruence].
+        * right. exists a'. split; [left; now right | exact H].
+        * right. exists a'. split; [right; exact Hrun | exact H].
+      + destruct (ps_flag s0).
+        * destruct IH as [H|[a' [[Hin|Hrun] H]]]; [left; exact H | right; exists a'; split; [left; now right | exact H] | right; exists a'; split; [right; exact Hrun | exact H]].
+        * destruct IH as [H|[a' [[Hin|Hrun] H]]]; cbn [ps_disk ps_running] in *.
+          -- left. exact H.
+          -- right. exists a'. split; [left; now right | exact H].
+          -- right. exists a'. inversion Hrun; subst. split; [left; now left | exact H].
+      + destruct (ps_running s0) as [a0|] eqn:Er.
+        * destruct IH as [H|[a' [[Hin|Hrun] H]]]; cbn [ps_disk ps_running] in *.
+          -- destruct (run_attempt_cases (ps_disk s0) a0) as [C|C].
+             ++ left. congruence.
+             ++ right. exists a0. split; [right; reflexivity | congruence].
+          -- right. exists a'. split; [left; exact Hin | exact H].
+          -- discriminate.
+        * destruct IH as [H|[a' [[Hin|Hrun] H]]]; [left; exact H | right; exists a'; split; [left; exact Hin | exact H] | rewrite Er in Hrun; discriminate]. }
+  intros s. destruct (G hist (ps_init d0) (fun _ _ => I)) as [H|[a [[Hin|Hrun] H]]].
+  - left. exact H.
+  - right. exists a. split; assumption.
+  - discriminate.
+Qed.
+
+(** the flag discipline the state machine [ps_step] assumes, read off rdb.rs on every run *)
+Lemma gen_bgsave_flag_discipline :
+  Generated.rdb_bgsave_sets_flag_before_spawn = true /\ Generated.rdb_bgsave_clears_flag_after_match = true.
+Proof. split; reflexivity. Qed.
+
+(** ------------------------------------------------------------------ *)
+(** * C10 (2): value/TTL of one key under a concurrent save *)
+Lemma states_of_reaches l : forall s l', In (fold_left cstep l s) (states_of s (l ++ l')).
+Proof.
+  induction l as [|c l IH]; intros s l'; cbn [fold_left app states_of].
+  - destruct l'; cbn [states_of]; now left.
+  - right. apply IH.
+Qed.
+(** whatever commands run during the save, the pair written for a key is the (value, deadline)
+    the key had at one single instant of the save; a key is left out only if it was absent or
+    past its deadline at that instant *)
+Lemma snapshot_from_one_instant now s0 before after :
+  let at_read := fold_left cstep before s0 in
+  In at_read (states_of s0 (before ++ after)) /\
+  (snapshot_key now s0 before after = at_read \/
+   (snapshot_key now s0 before after = None /\ exists v dl, at_read = Some (v, Some dl) /\ dl <= now)).
+Proof.
+  intros at_read. split; [apply states_of_reaches|].
+  unfold snapshot_key. fold at_read. destruct at_read as [[v [dl|]]|]; [|left; reflexivity | left; reflexivity].
+  destruct (dl <=? now) eqn:E; [right | left; reflexivity].
+  split; [reflexivity|]. exists v, dl. split; [reflexivity | now apply Z.leb_le].
 Qed.
